@@ -1,523 +1,1284 @@
 """C06 -- trust-region subproblem steps: radius, Cauchy decrease, hard case (structural clauses).
 
-  D1  boundary steps have norm equal to the radius: for the four projection helpers the returned
-      z + tau*d satisfies  zz + 2 tau <z,d> + tau^2 <d,d> = Delta^2  identically (algebraic atom
-      s^2 = (Delta^2-zz) dd + zd^2); update_step_length_squared is the expansion of <z+ad, z+ad>; the
-      preconditioned recurrences have the published (Gould et al.) form and are fed the *current*
-      rPr, z, d; exits labelled boundary / negative-curvature return the projected point under the
-      matching guard, interior exits return the iterate under the residual guard;
-  D2  dogleg: each return under its path condition (scaled Cauchy point has norm^2 = Delta^2; cp only
-      when inside; Newton point only when inside; otherwise the boundary point on cp + tau (newton - cp));
-      the Cauchy point is a non-positive multiple of the gradient on both curvature branches;
-  D3  eigen-solver index spaces: with sig, v = eigh(A), v : [space, mode]; every product, sum and return in
-      treigen.solve type-checks and the step is a space vector.
-Not decided: model decrease >= Cauchy decrease, Newton residual of interior steps, secular iteration accuracy,
-validity of the CG invariants behind the recurrences.
+All clauses except the index-space typing are decided by *symbolic interpretation* (rules/C06_sym.py): the solvers are run on formal
+vectors / symmetric operators / symbolic scalars, every comparison forks the path, the CG loop is analysed from a generalised head
+state (base = state on entry, step = state at the back edge).  Obligations are identities and implications on the resulting values;
+nothing refers to local names, statement shapes, helper names or idioms (only the public interface: function names, parameter
+positions, the step-type constants, the Settings field that selects the inner product).
+
+  D1  *boundary steps have norm equal to the radius, the iterate stays inside.*  For the public projection helpers the returned point is
+      z + tau d with  <z,z> + 2 tau <z,d> + tau^2 <d,d> = Delta^2  under the helper's contract (algebraic atom for the root) and tau is the
+      forward root; update_step_length_squared is the expansion of <z+ad, z+ad>.  For each CG solver and each inner-product mode the scalars
+      that track <z,z>, <z,d>, <d,d> are *found* (the assignment of carried scalars to Gram products under which a boundary exit has
+      norm Delta); they must hold on entry and be advanced correctly: directly in the Euclidean mode, by the published (Gould et al.)
+      recurrences  zd' = b (zd + a dd),  dd' = <r',P r'> + b^2 dd  in the preconditioned mode, where a, b, r' are read off the *values* of
+      the new iterate and direction.  Every exit reported as boundary / negative curvature returns a point of norm Delta (in the mode's
+      norm), the negative-curvature one under <d,Hd> <= 0, the boundary one when the tentative step leaves the region; a step is only
+      taken along positive curvature; the iterate stays inside; interior exits return a point whose own residual passed the tolerance test;
+  D2  dogleg: every returned point lies inside the region and on the path origin -> Cauchy point -> quasi-Newton point (decided from
+      the path facts: identities, convex-quadratic intermediate value argument, numeric witnesses for refutation); the Cauchy point
+      handed to the dogleg step is a non-positive multiple of the model gradient on every path;
+  D3  eigen-solver: index-space typing of treigen.solve (v : [space, mode]); the hard-case step p + tau z has norm Delta with a multiplier
+      that stays finite when p is orthogonal to z; the initial multiplier is -lambda_min + (offset >= 0 for every spectrum).
+Not decided: model decrease >= Cauchy decrease, Newton residual accuracy of the preconditioned recurrences (they rely on the CG
+orthogonality invariants, trusted), secular iteration accuracy, global optimality of the eigen solution.
 """
 from __future__ import annotations
 
 import ast
+import math
+from itertools import permutations
+from fractions import Fraction
 
-from optilint.cfg import cfg_of
-from optilint.model import dotted, FuncVal, walk_local
+from optilint.model import dotted, FuncVal
 from optilint.core import Incomplete
-from optilint.expr import Algebra, NotPolynomial, Rat, Poly
-from optilint.absdom import SignEnv, is_nonpos, TOP
-from .common import return_normal_form, normal_form, sem_same, src, expand, canon, same, calls_in, single_def, def_value, const_value, actual, cond_atoms
+from optilint.expr import Rat, Poly
+from optilint.tensoreval import Dual, Closure, EvalError, rat_const, R, ONE, ZERO
+from .common import src
+from .C06_sym import (SymInterp, SymObj, FV, MV, MatSym, LinOp, Sample, SampleInvalid, EVAL_ERRORS, Budget, atom, rat, nrm, req, subst,
+                      atoms_of, rkey, snapshot_leaves, fact_ge, implies_nonneg, S)
 
 LEVEL = "other"
-RULE_TEXT = ("obligations = (projection helper x norm identity) + (labelled exit x guard/point) + (recurrence x form/currentness) + "
-             "(dogleg return x path condition) + (expression in treigen.solve x index-space type)")
-EXPLANATION = ("Static analysis of EquationSolver.py, EquationSolverSubspace.py, treigen/treigen.py: exact algebraic identities "
-               "(normal forms with an algebraic square-root atom and Gram atoms) for the boundary projections, dominator "
-               "rules for labelled exits, and an index-space type system (space vs eigen-mode axes) for the eigen solver. "
-               "Optimality of steps is not decided.")
+RULE_TEXT = ("obligations = (projection helper x {ray, norm identity, forward root}) + (CG solver x mode x {exit point, exit guard, tracked Gram "
+             "scalars on entry / advanced, recurrences}) + (dogleg return x {inside, on path}) + (Cauchy point case x sign) + "
+             "(expression in treigen.solve x index-space type) + (hard-case return x {on boundary, finite}) + (initial multiplier x offset sign)")
+EXPLANATION = ("Static analysis of EquationSolver.py, EquationSolverSubspace.py, treigen/treigen.py by symbolic interpretation: formal vectors "
+               "with Gram atoms, symmetric operator words, algebraic square-root atoms, path forking on comparisons, generalised loop head "
+               "with base/step states; obligations are identities / implications on the computed values, refutations carry the differing value "
+               "or a numeric witness of the extracted formula; plus an index-space type system for the eigen solver.  Optimality of steps is not decided.")
 
 ES = "optimism.EquationSolver"
 ESS = "optimism.EquationSolverSubspace"
 TE = "optimism.treigen.treigen"
+MODE_FLAG = "use_preconditioned_inner_product_for_cg"
 
 
 def run(ctx):
     for m in (ES, ESS, TE):
         ctx.need_module(m)
-    ctx.guard(d1_projections, ctx)
-    ctx.guard(d1_recurrences, ctx)
-    ctx.guard(d1_exits, ctx)
-    ctx.guard(d2_dogleg, ctx)
-    ctx.guard(d2_cauchy, ctx)
-    ctx.guard(d3_types, ctx)
-    ctx.guard(d3_hard_case_multiplier, ctx)
-    ctx.guard(d3_pole_offset, ctx)
-    ctx.trust("numpy.linalg.eigh returns eigenvalues ascending and eigenvectors as COLUMNS of the second result")
-    ctx.trust("Gould, Lucidi, Roma, Toint (1999) recurrences for <z,d>_M and <d,d>_M in preconditioned CG")
+    _guard(ctx, d1_projections)
+    _guard(ctx, d1_cg_solvers)
+    _guard(ctx, d1_subspace_call_contract)
+    _guard(ctx, d2_dogleg)
+    _guard(ctx, d2_cauchy)
+    _guard(ctx, d3_types)
+    _guard(ctx, d3_eigen_solver)
+    ctx.trust("numpy.linalg.eigh returns eigenvalues ascending and an orthogonal matrix with the eigenvectors as COLUMNS")
+    ctx.trust("Gould, Lucidi, Roma, Toint (1999) recurrences for <z,d>_M and <d,d>_M in preconditioned CG (they rest on the CG orthogonality relations)")
     ctx.assume("trust-region radius > 0")
+    ctx.assume("model Hessian, preconditioner and approximate Hessian act as symmetric linear operators; preconditioner and approximate Hessian positive definite")
 
 
-# ------------------------------------------------------------------ D1: projections
+def _guard(ctx, fn):
+    def wrapped(ctx):
+        try:
+            return fn(ctx)
+        except Budget:
+            raise
+        except EVAL_ERRORS as e:
+            raise Incomplete(f"{fn.__name__}: symbolic interpretation failed: {type(e).__name__}: {e}")
+    wrapped.__name__ = fn.__name__
+    return ctx.guard(wrapped, ctx)
 
-def _tau_of_return(ret, zname, dname):
-    """return z + tau*d  ->  tau expression"""
-    e = ret
-    if not (isinstance(e, ast.BinOp) and isinstance(e.op, ast.Add)):
-        return None
-    for a, b in ((e.left, e.right), (e.right, e.left)):
-        if isinstance(a, ast.Name) and a.id == zname and isinstance(b, ast.BinOp) and isinstance(b.op, ast.Mult):
-            for t, d in ((b.left, b.right), (b.right, b.left)):
-                if isinstance(d, ast.Name) and d.id == dname:
-                    return t
+
+def _touch(ctx, it):
+    for q in sorted(it.visited):
+        sc = ctx.repo.find(q)
+        if sc is not None and "<" not in q:
+            ctx.touch(sc)
+    for line in it.assumed:
+        ctx.assume(line)
+
+
+def _combine(verdicts):
+    """verdicts: [(ok, detail)] -> (ok, detail): refuted if one is refuted, undecided if one is undecided"""
+    bad = [d for (o, d) in verdicts if o is False]
+    if bad:
+        return False, bad[0]
+    und = [d for (o, d) in verdicts if o is None]
+    if und:
+        return None, und[0]
+    return (True, verdicts[0][1]) if verdicts else (None, "no path")
+
+
+def _show(x, n=110):
+    s = repr(x)
+    return s if len(s) <= n else s[:n] + "..."
+
+
+# ------------------------------------------------------------------ D1: projection helpers
+
+def _forward_root(it, tau: Rat, setup, n=10):
+    """sign of tau at sample points strictly inside the region: +1 / -1 / None.  tau solves the norm equation, the two roots have opposite
+    signs inside the region and tau is continuous there, so its sign is the same at every interior point."""
+    signs = set()
+    for k in range(n):
+        smp = Sample(it, seed=101 + k)
+        try:
+            setup(smp)
+            v = smp.value(tau)
+        except (SampleInvalid, KeyError, ZeroDivisionError, OverflowError, ValueError):
+            continue
+        if v != v:
+            continue
+        signs.add(1 if v > 1e-12 else (-1 if v < -1e-12 else 0))
+    if signs == {1}:
+        return 1
+    if signs == {-1}:
+        return -1
     return None
 
 
 def d1_projections(ctx):
     rule = "D1/T7-boundary-norm-identity"
-    helpers = [(f"{ES}:project_to_boundary", None), (f"{ES}:project_to_boundary_with_coefs", None),
-               (f"{ESS}:project_to_boundary_with_coefs", None), (f"{ES}:preconditioned_project_to_boundary", "mult_by_approx_hessian")]
-    for q, op in helpers:
-        sc = ctx.need(q)
-        cfg = cfg_of(sc)
-        ps = sc.params()
-        zn, dn, tr, zz = ps[0], ps[1], ps[2], ps[3]
-        rets = cfg.returns()
-        if len(rets) != 1:
-            ctx.undecided(rule, sc, None, construct="returns", detail=f"{len(rets)} returns")
+    it = SymInterp(ctx.repo)
+    M = it.op("M", spd=True)
+    specs = [(ES, "project_to_boundary", "euclid", 4), (ES, "project_to_boundary_with_coefs", "coefs", 6),
+             (ESS, "project_to_boundary_with_coefs", "coefs", 6), (ES, "preconditioned_project_to_boundary", "metric", 5)]
+    seen = set()
+    n_helpers = 0
+    for mod, name, kind, npar in specs:
+        f = it.module_attr(mod, name)
+        if not isinstance(f, Closure):
+            ctx.notes.append(f"{mod}.{name} is not defined: no helper-level obligation (the exits of the solvers are checked on their own)")
             continue
-        r = rets[0]
-        # normal form of the return value: locals expanded (z, d kept), small helpers / sibling projections inlined
-        ret_nf = return_normal_form(sc, stop=(zn, dn))
-        tau = _tau_of_return(ret_nf, zn, dn) if ret_nf is not None else None
-        if tau is None:
-            ctx.refuted(rule, sc, r.ast, construct="returns-z+tau*d",
-                        detail=f"returns `{src(ret_nf if ret_nf is not None else r.ast.value)[:160]}`, not {zn} + tau*{dn}: the result does not lie on the ray from z along d")
+        sc = f.scope
+        if sc.qualname in seen:
+            continue            # the same function under a second name (imported)
+        seen.add(sc.qualname)
+        n_helpers += 1
+        if len(sc.params()) < npar or sc.n_required() > npar:
+            ctx.undecided(rule, sc, None, construct="signature", detail=f"{len(sc.params())} parameters, the public interface has {npar}")
             continue
-        lin = {op: "M"} if op else {}
-        A = Algebra(vector_atoms={zn, dn}, linear_ops=lin)
-        try:
-            tau_e = tau
-            T = A.lower(tau_e)
-            # the inner products the caller's zz belongs to
-            if len(ps) >= 6 and op is None and "zd" in ps:
-                ZD, DD = A.atom(ps[4]), A.atom(ps[5])
-            else:
-                dvec = ast.parse(f"{op}({dn})" if op else dn, mode="eval").body
-                ZD = A._bilinear(ast.Name(id=zn, ctx=ast.Load()), dvec)
-                DD = A._bilinear(ast.Name(id=dn, ctx=ast.Load()), dvec)
-            normsq = A.norm(A.atom(zz) + A.const(2) * T * ZD + T * T * DD)
-            want = A.lower(ast.parse(f"{tr}**2", mode="eval").body)
-            ok = A.equal(normsq, want)
-            detail = f"zz + 2 tau zd + tau^2 dd normalises to {tr}^2 with tau = {src(tau_e)[:80]}"
-            bad = f"|z + tau d|^2 normalises to {normsq!r}, not {tr}^2 (tau = {src(tau_e)[:100]})"
-        except NotPolynomial as ex:
-            ok, detail, bad = None, "", f"cannot normalise: {ex}"
-        ctx.decide(rule, ok, sc, r.ast, construct="norm-of-result-is-radius", detail=detail, bad_detail=bad)
-        # the positive root is taken: tau = (+sqrt(.) - zd)/dd
-        pos = "np.sqrt" in src(tau)
-        te = tau
-        negroot = False
-        for n in ast.walk(te):
-            if isinstance(n, ast.UnaryOp) and isinstance(n.op, ast.USub) and isinstance(n.operand, ast.Call) and (dotted(n.operand.func) or "").endswith("sqrt"):
-                negroot = True
-            if isinstance(n, ast.BinOp) and isinstance(n.op, ast.Sub) and isinstance(n.right, ast.Call) and (dotted(n.right.func) or "").endswith("sqrt"):
-                negroot = True
-        ctx.decide(rule, pos and not negroot, sc, r.ast, construct="forward-root",
-                   detail="tau uses the +sqrt branch (continues along d)",
-                   bad_detail="tau uses the -sqrt branch: the projection goes backwards along d")
-    # update_step_length_squared = <z + a d, z + a d>
-    us = ctx.need(f"{ES}:update_step_length_squared")
-    r = us.returns()
-    a_, zz_, zd_, dd_ = us.params()
-    A = Algebra()
-    try:
-        got = A.lower(r[0])
-        want = A.lower(ast.parse(f"{zz_} + 2*{a_}*{zd_} + {a_}*{a_}*{dd_}", mode="eval").body)
-        ok = A.equal(got, want)
-    except (NotPolynomial, IndexError):
-        ok = None
-    ctx.decide(rule, ok, us, r[0] if r else None, construct="update_step_length_squared",
-               detail="zz + 2 a zd + a^2 dd", bad_detail=f"update_step_length_squared returns `{src(r[0]) if r else '?'}`, not the expansion of <z+a d, z+a d>")
-
-
-# ------------------------------------------------------------------ D1: recurrences
-
-def d1_recurrences(ctx):
-    rule = "D1/T7-recurrences"
-    pre = ctx.need(f"{ES}:cg_inner_products_preconditioned")
-    unp = ctx.need(f"{ES}:cg_inner_products_unpreconditioned")
-    for sc, wants in ((pre, ("beta*(zd + alpha*dd)", "rPr + beta*beta*dd")), (unp, None)):
-        cfg = cfg_of(sc)
-        rets = cfg.returns()
-        ps = sc.params()
-        if len(rets) != 1 or not isinstance(rets[0].ast.value, ast.Tuple) or len(rets[0].ast.value.elts) != 2:
-            ctx.undecided(rule, sc, None, construct="returns", detail="unexpected return shape")
-            continue
-        r = rets[0]
-        e0, e1 = r.ast.value.elts
-        if wants:
-            A = Algebra()
-            try:
-                # zd' uses the OLD dd: expand sequentially with reaching definitions
-                g0 = A.lower(expand(cfg, r, e0))
-                g1 = A.lower(expand(cfg, r, e1))
-                # names in the function are parameters; `zd`/`dd` redefined -> __in suffix for entry values
-                def norm_in(x):
-                    return ast.parse(x.replace("zd", "zd__in").replace("dd", "dd__in"), mode="eval").body
-                w0 = A.lower(norm_in(wants[0]))
-                w1 = A.lower(norm_in(wants[1]))
-                ok0, ok1 = A.equal(g0, w0), A.equal(g1, w1)
-                ctx.decide(rule, ok0, sc, e0, construct="zd-recurrence", detail=f"zd' = {g0!r}",
-                           bad_detail=f"<z,d>_M recurrence is {g0!r}, expected beta*(zd + alpha*dd)")
-                ctx.decide(rule, ok1, sc, e1, construct="dd-recurrence", detail=f"dd' = {g1!r}",
-                           bad_detail=f"<d,d>_M recurrence is {g1!r}, expected rPr + beta^2*dd")
-            except NotPolynomial as ex:
-                ctx.undecided(rule, sc, r.ast, construct="recurrence", detail=str(ex))
+        z, d = it.vec("z"), it.vec("d")
+        Delta = it.scalar("Delta", positive=True)
+        zz = it.scalar("zz", nonneg=True)
+        az, ad = ((), "z"), ((), "d")
+        if kind == "coefs":
+            zd, dd = it.scalar("zd"), it.scalar("dd", positive=True)
+            args = [z, d, Delta, zz, zd, dd]
+            gmap = {it.gram(az, az): zz.a, it.gram(az, ad): zd.a, it.gram(ad, ad): dd.a}
+            inner = lambda u, v: it.dot(u, v)
+        elif kind == "metric":
+            args = [z, d, Delta, zz, M]
+            gmap = {it.dot(z, M.apply(z)).a: zz.a}
+            inner = lambda u, v: it.dot(u, M.apply(v))
         else:
-            zname, dname = ps[5], ps[6]
-            A = Algebra(vector_atoms={zname, dname})
-            try:
-                g0 = A.lower(expand(cfg, r, e0, stop=(zname, dname)))
-                g1 = A.lower(expand(cfg, r, e1, stop=(zname, dname)))
-                w0 = A._bilinear(ast.Name(id=zname, ctx=ast.Load()), ast.Name(id=dname, ctx=ast.Load()))
-                w1 = A._bilinear(ast.Name(id=dname, ctx=ast.Load()), ast.Name(id=dname, ctx=ast.Load()))
-                ctx.decide(rule, A.equal(g0, w0), sc, e0, construct="zd-direct", detail="zd = <z,d>",
-                           bad_detail=f"unpreconditioned zd is {g0!r}, not <z,d>")
-                ctx.decide(rule, A.equal(g1, w1), sc, e1, construct="dd-direct", detail="dd = <d,d>",
-                           bad_detail=f"unpreconditioned dd is {g1!r}, not <d,d>")
-            except NotPolynomial as ex:
-                ctx.undecided(rule, sc, r.ast, construct="direct", detail=str(ex))
-    # same signature (they are stored in one slot)
-    ctx.decide(rule, pre.params() == unp.params(), pre, None, construct="siblings-same-signature",
-               detail="both recurrence functions take the same parameters",
-               bad_detail=f"recurrence siblings differ in signature: {pre.params()} vs {unp.params()}")
-    # call site: arguments are current
-    cg = ctx.need(f"{ES}:solve_trust_region_minimization")
-    cfg = cfg_of(cg)
-    loops = [n for n in cfg.nodes if n.kind == "for"]
-    if not loops:
-        raise Incomplete("CG loop not found")
-    loop = loops[0]
-    calls = []
-    for n in cfg.nodes:
-        if n.kind == "stmt" and n.ast is not None and loop in n.loops:
-            for c in ast.walk(n.ast):
-                if isinstance(c, ast.Call) and isinstance(c.func, ast.Name):
-                    vals = ctx.repo.resolve(c.func, cg)
-                    if any(isinstance(v, FuncVal) and v.scope in (pre, unp) for v in vals):
-                        calls.append((n, c))
-    if len(calls) != 1:
-        ctx.undecided(rule, cg, None, construct="recurrence-call", detail=f"{len(calls)} recurrence calls in the CG loop")
-        return
-    n, c = calls[0]
-    ps = pre.params()
-    # roles: alpha, beta, zd, dd, rPr, z, d
-    for pname in (ps[4], ps[5], ps[6], ps[0], ps[1]):
-        a = actual(c, ps, pname)
-        if not isinstance(a, ast.Name):
-            ctx.undecided(rule, cg, c, construct=f"current:{pname}", detail=f"argument {src(a)}")
-            continue
-        defs = cfg.reaching(n, a.id)
-        ok = len(defs) == 1 and loop in defs[0].loops and cfg.dominates(defs[0], n) and \
-            not cfg.paths_between(defs[0], n, avoid=[]) is False
-        # the definition must be executed in the same iteration: it dominates the call and lies in the loop
-        ctx.decide(rule, len(defs) == 1 and loop in defs[0].loops and cfg.dominates(defs[0], n), cg, c,
-                   construct=f"recurrence-argument-current:{pname}",
-                   detail=f"`{a.id}` passed as {pname} is defined in the same iteration by `{src(defs[0].ast) if defs else '?'}`",
-                   bad_detail=f"`{a.id}` passed as {pname} can still hold a value from before this iteration's update "
-                              f"(reaching definitions: {[src(d.ast) if d.ast is not None else 'entry' for d in defs]}): the recurrence would use a stale quantity")
-    # old zd, dd must be the previous iteration's values (not yet overwritten in this iteration)
-    for pname in (ps[2], ps[3]):
-        a = actual(c, ps, pname)
-        if isinstance(a, ast.Name):
-            defs = cfg.reaching(n, a.id)
-            stale_ok = all((d is n) or (loop not in d.loops) or not cfg.dominates(d, n) or d is n for d in defs)
-            # definitions inside the loop that dominate the call would mean the value was already overwritten
-            over = [d for d in defs if loop in d.loops and d is not n and cfg.dominates(d, n)]
-            ctx.decide(rule, not over, cg, c, construct=f"recurrence-argument-previous:{pname}",
-                       detail=f"`{a.id}` still holds the previous iteration's value",
-                       bad_detail=f"`{a.id}` was already overwritten in this iteration by `{src(over[0].ast) if over else ''}`")
-    # the result is stored back to zd, dd in this order and zz takes the predicted squared length
-    if isinstance(n.ast, ast.Assign) and isinstance(n.ast.targets[0], ast.Tuple):
-        tnames = [t.id if isinstance(t, ast.Name) else None for t in n.ast.targets[0].elts]
-        zd_a, dd_a = actual(c, ps, ps[2]), actual(c, ps, ps[3])
-        ok = tnames == [src(zd_a), src(dd_a)]
-        ctx.decide(rule, ok, cg, n.ast, construct="recurrence-result-order", detail=f"{tnames} = recurrence(...)",
-                   bad_detail=f"recurrence results stored into {tnames}, expected [{src(zd_a)}, {src(dd_a)}]")
-
-
-# ------------------------------------------------------------------ D1: labelled exits
-
-def _label_of(ctx, scope, e):
-    d = src(e)
-    if "negCurveString" in d:
-        return "negcurve"
-    if "boundaryString" in d:
-        return "boundary"
-    if "interiorString" in d:
-        return "interior_" if isinstance(e, ast.BinOp) else "interior"
-    return "?"
-
-
-def d1_exits(ctx):
-    rule = "D1/T1-labelled-exits"
-    for q, proj_names in ((f"{ES}:solve_trust_region_minimization", ("project_to_boundary_with_coefs",)),
-                          (f"{ESS}:trust_region_cg", ("project_to_boundary_with_coefs",))):
-        sc = ctx.need(q)
-        cfg = cfg_of(sc)
-        loops = [n for n in cfg.nodes if n.kind == "for"]
-        n_lab = 0
-        for r in cfg.returns():
-            v = r.ast.value
-            if not isinstance(v, ast.Tuple):
+            args = [z, d, Delta, zz]
+            gmap = {it.gram(az, az): zz.a}
+            inner = lambda u, v: it.dot(u, v)
+        gmap = {next(iter(k.atoms())): v for k, v in gmap.items()}
+        paths = it.run_paths(f, args)
+        for p in paths:
+            if p.kind != "return" or not isinstance(p.value, FV):
+                ctx.undecided(rule, sc, p.ret_node, construct="returns-z+tau*d",
+                              detail=f"path not interpreted: {p.error or 'returns ' + _show(p.value)}")
                 continue
-            labs = [(_label_of(ctx, sc, e), i) for i, e in enumerate(v.elts) if _label_of(ctx, sc, e) != "?"]
-            if not labs:
+            V = p.value
+            node = p.ret_node
+            if not set(V.t) <= {az, ad}:
+                ctx.undecided(rule, sc, node, construct="returns-z+tau*d", detail=f"returns {_show(V)}: components besides z and d")
                 continue
-            lab = labs[0][0]
-            first = v.elts[0]
-            n_lab += 1
-            if lab in ("boundary", "negcurve"):
-                # point: projection of the current z along the current d
-                pe = expand(cfg, r, first, depth=1) if isinstance(first, ast.Name) else first
-                from .common import unwrap_call
-                pe = unwrap_call(pe, sc, stop_names=proj_names)
-                okp = isinstance(pe, ast.Call) and (dotted(pe.func) or "").split(".")[-1] in proj_names
-                shown = src(pe)
-                okargs = False
-                if okp:
-                    a = pe.args
-                    okargs = len(a) >= 4 and all(isinstance(x, ast.Name) for x in a[:2])
-                    # zz, zd, dd arguments (if present) must be the tracked values of the same z, d
-                    dnode = single_def(cfg, r, first.id) if isinstance(first, ast.Name) else r
-                    if okargs and dnode is not None and len(a) >= 6:
-                        for x in a[3:6]:
-                            if isinstance(x, ast.Name):
-                                for dd_ in cfg.reaching(dnode, x.id):
-                                    pass
-                ctx.decide(rule, okp and okargs, sc, r.ast, construct=f"{lab}-exit-returns-projection",
-                           detail=f"returns {shown[:70]}",
-                           bad_detail=f"exit labelled {lab} returns `{shown[:90]}`, not the projection onto the trust-region boundary")
-                # guard
-                facts = [(c, l) for (c, l) in cfg.edge_facts(r) if c.kind == "cond" and loops and loops[0] in c.loops]
-                texts = []
-                for (c, l) in facts:
-                    for (a_, pol) in cond_atoms(c.ast, l):
-                        texts.append((canon(expand(cfg, c, a_, depth=1)), pol, a_))
-                if lab == "negcurve":
-                    okg = any(pol and isinstance(a_, ast.Compare) and isinstance(a_.ops[0], ast.LtE) and const_value(a_.comparators[0]) == 0
-                              and "curvature" in src(a_.left) for (t, pol, a_) in texts)
-                    ctx.decide(rule, okg, sc, r.ast, construct="negcurve-exit-guard", detail="under curvature <= 0",
-                               bad_detail="exit labelled negative-curvature is not guarded by `curvature <= 0`")
+            cz, tau = V.coef(az), V.coef(ad)
+            if not req(cz, ONE):
+                ctx.refuted(rule, sc, node, construct="returns-z+tau*d",
+                            detail=f"returns {_show(V)}: the coefficient of the first argument is {cz!r}, not 1: the result does not lie on the ray from z along d")
+                continue
+            N2 = subst(inner(V, V).a, gmap)
+            ok = req(N2, Delta.a * Delta.a)
+            ctx.decide(rule, ok, sc, node, construct="norm-of-result-is-radius",
+                       detail="<z,z> + 2 tau <z,d> + tau^2 <d,d> normalises to Delta^2 under the helper's contract",
+                       bad_detail=f"|z + tau d|^2 normalises to {_show(N2, 300)}, not Delta^2 (tau = {_show(tau, 160)})")
+
+            def setup(smp, kind=kind):
+                zv, dv = smp.vector("z"), smp.vector("d")
+                if kind == "metric":
+                    m = smp.opmat("M")
+                    mv = lambda v: [m[0][0] * v[0] + m[0][1] * v[1], m[1][0] * v[0] + m[1][1] * v[1]]
                 else:
-                    okg = False
-                    for (t, pol, a_) in texts:
-                        if pol and isinstance(a_, ast.Compare) and isinstance(a_.ops[0], ast.Gt):
-                            rhs = a_.comparators[0]
-                            if same(rhs, "trSize ** 2") or same(rhs, "trSize * trSize"):
-                                okg = True
-                    ctx.decide(rule, okg, sc, r.ast, construct="boundary-exit-guard", detail="under |z+alpha d|^2 > trSize^2",
-                               bad_detail="exit labelled boundary is not guarded by `(step length)^2 > trSize**2`")
-            elif lab == "interior":
-                # returns the iterate itself; under residual guard unless it is the zero-gradient early exit
-                ok = isinstance(first, ast.Name)
-                if ok:
-                    defs = cfg.reaching(r, first.id)
-                    ok = all(d.kind == "stmt" and not (isinstance(getattr(d.ast, "value", None), ast.Call) and
-                                                       isinstance(d.ast.value.func, ast.Name) and d.ast.value.func.id in proj_names) for d in defs)
-                facts = [src(c.ast) for (c, l) in cfg.edge_facts(r) if c.kind == "cond" and l]
-                okg = any("cgTolSquared" in f or "TolSquared" in f for f in facts)
-                ctx.decide(rule, ok and okg, sc, r.ast, construct="interior-exit", detail=f"returns the unprojected iterate under {facts[-1:] }",
-                           bad_detail=f"exit labelled interior: returns `{src(first)}` under {facts}; expected the iterate under the residual tolerance guard")
-            else:
-                ctx.proved(rule, sc, r.ast, construct="iteration-cap-exit", detail="labelled 'interior_' (iteration cap)")
-        if n_lab < 3:
-            ctx.undecided(rule, sc, None, construct="labelled-exits", detail=f"{n_lab} labelled exits found")
-    # role names from the boundary exit: project_to_boundary_with_coefs(z, d, trSize, ZZ, ZD, DD)
-    cg = ctx.need(f"{ES}:solve_trust_region_minimization")
-    cfg = cfg_of(cg)
-    roles = None
-    for c in calls_in(cg):
-        if isinstance(c.func, ast.Name) and c.func.id == "project_to_boundary_with_coefs" and len(c.args) == 6 \
-                and all(isinstance(a, ast.Name) for a in c.args):
-            roles = [a.id for a in c.args]
-    if roles is None:
-        raise Incomplete("projection call with tracked inner products not found in the CG solver")
-    Zn, Dn, TRn, ZZ, ZD, DD = roles
-    for n in cfg.nodes:
-        if n.kind == "cond" and isinstance(n.ast, ast.Compare) and isinstance(n.ast.ops[0], ast.Gt) and isinstance(n.ast.left, ast.Name):
-            rhs = n.ast.comparators[0]
-            if same(rhs, f"{TRn} ** 2") or same(rhs, f"{TRn} * {TRn}"):
-                e = expand(cfg, n, n.ast.left, depth=1)
-                ok = isinstance(e, ast.Call) and isinstance(e.func, ast.Name) and e.func.id == "update_step_length_squared" \
-                    and [src(a) for a in e.args[1:]] == [ZZ, ZD, DD] and isinstance(e.args[0], ast.Name)
-                if ok:
-                    # the step length is the one used for the tentative step z + alpha*d
-                    al = e.args[0].id
-                    ok = any(isinstance(m.ast, ast.Assign) and same(m.ast.value, f"{Zn} + {al} * {Dn}") for m in cfg.nodes
-                             if m.kind == "stmt" and m.ast is not None)
-                ctx.decide(rule, ok, cg, n.ast, construct="predicted-length", detail=f"{src(n.ast.left)} = {src(e)}",
-                           bad_detail=f"the length compared with the radius is `{src(e)}`, not update_step_length_squared(alpha, {ZZ}, {ZD}, {DD}) for the step z + alpha*d")
-    # zz is advanced to the predicted value when the step is taken
-    zzdefs = [n for n in cfg.nodes if n.kind == "stmt" and isinstance(n.ast, ast.Assign) and isinstance(n.ast.targets[0], ast.Name)
-              and n.ast.targets[0].id == ZZ and n.loops]
-    ok = len(zzdefs) == 1 and isinstance(zzdefs[0].ast.value, ast.Name) and \
-        "update_step_length_squared" in src(expand(cfg, zzdefs[0], zzdefs[0].ast.value, depth=1))
-    ctx.decide(rule, ok, cg, zzdefs[0].ast if zzdefs else None, construct="zz-advanced",
-               detail="zz <- predicted |z + alpha d|^2", bad_detail="zz is not advanced to the predicted squared step length inside the CG loop")
-    # initial dd for both modes
-    pre_if = [n for n in cfg.nodes if n.kind == "stmt" and isinstance(n.ast, ast.Assign) and isinstance(n.ast.targets[0], ast.Name)
-              and n.ast.targets[0].id == DD and not n.loops]
-    for n in pre_if:
-        facts = [(src(c.ast), l) for (c, l) in cfg.edge_facts(n) if c.kind == "cond"]
-        precond_mode = any("use_preconditioned_inner_product_for_cg" in t and l for (t, l) in facts)
-        rn, pn = cg.params()[1], cg.params()[3]
-        e = expand(cfg, n, n.ast.value, stop=(rn, Dn))
-        if precond_mode:
-            ok = same(e, f"{rn} @ {pn}({rn})")
-            want = "r@precond(r)  (= <d0,d0>_M for d0 = -M^-1 r)"
+                    mv = lambda v: v
+                ip = lambda u, v: sum(a * b for a, b in zip(u, mv(v)))
+                smp.scalars["zz"] = ip(zv, zv)
+                smp.scalars["zd"] = ip(zv, dv)
+                smp.scalars["dd"] = ip(dv, dv)
+                smp.scalars["Delta"] = math.sqrt(ip(zv, zv)) * (1.2 + smp.rng.uniform(0, 2)) + 0.1
+            sg = _forward_root(it, tau, setup)
+            ctx.decide(rule, True if sg == 1 else (False if sg == -1 else None), sc, node, construct="forward-root",
+                       detail="tau > 0 at interior sample points: the positive root is taken (continues along d)",
+                       bad_detail="tau < 0 at interior sample points: the projection goes backwards along d" if sg == -1 else
+                                  f"sign of tau = {_show(tau)} not constant / not evaluable at the sample points")
+    if n_helpers == 0:
+        ctx.undecided(rule, None, None, construct="projection-helpers", detail="none of the public projection helpers is defined")
+    # update_step_length_squared = <z + a d, z + a d>
+    f = it.module_attr(ES, "update_step_length_squared")
+    if isinstance(f, Closure) and len(f.scope.params()) == 4:
+        a, zz, zd, dd = it.scalar("alpha"), it.scalar("zz"), it.scalar("zd"), it.scalar("dd")
+        for p in it.run_paths(f, [a, zz, zd, dd]):
+            if p.kind != "return" or not isinstance(p.value, Dual):
+                ctx.undecided(rule, f.scope, p.ret_node, construct="update_step_length_squared", detail=f"path not interpreted: {p.error}")
+                continue
+            want = zz.a + R(2) * a.a * zd.a + a.a * a.a * dd.a
+            ctx.decide(rule, req(p.value.a, want), f.scope, p.ret_node, construct="update_step_length_squared",
+                       detail="zz + 2 a zd + a^2 dd",
+                       bad_detail=f"update_step_length_squared returns {_show(p.value)}, not the expansion zz + 2 a zd + a^2 dd of <z+a d, z+a d>")
+    else:
+        ctx.notes.append("update_step_length_squared not defined with 4 parameters: covered by the tracked-scalar obligations of the CG solver")
+    _touch(ctx, it)
+
+
+# ------------------------------------------------------------------ D1: the CG solvers
+
+class _CG:
+    """symbolic runs of one truncated-CG solver and the roles read off the values"""
+
+    def __init__(self, ctx, which):
+        self.ctx = ctx
+        it = self.it = SymInterp(ctx.repo)
+        H = it.op("H")
+        P = it.op("P", inverse="Pinv", spd=True)
+        self.H, self.P, self.Pinv = H, P, LinOp("Pinv", it)
+        if which == "STM":
+            sc = ctx.need(f"{ES}:solve_trust_region_minimization")
+            ps = sc.params()
+            if len(ps) < 6 or sc.n_required() > 6:
+                raise Incomplete(f"{sc.qualname} has {len(ps)} parameters, the public interface has 6")
+            g = it.vec(ps[1])
+            args = [it.vec(ps[0]), g, H, P, it.scalar(ps[4], positive=True), SymObj(ps[5])]
+            self.Delta, self.settings = atom(ps[4]), ps[5]
         else:
-            ok = same(e, f"{Dn} @ {Dn}")
-            want = "d@d"
-        ctx.decide(rule, ok, cg, n.ast, construct=f"initial-dd:{'M' if precond_mode else 'I'}", detail=f"dd0 = {src(e)}",
-                   bad_detail=f"initial dd = `{src(e)}`, expected {want}")
+            sc = ctx.need(f"{ESS}:trust_region_cg")
+            ps = sc.params()
+            if len(ps) < 8 or sc.n_required() > 8:
+                raise Incomplete(f"{sc.qualname} has {len(ps)} parameters, the public interface has 8")
+            g = it.vec(ps[1])
+            Pg = P.apply(g)
+            args = [it.vec(ps[0]), g, Pg, H.apply(Pg), H, P, it.scalar(ps[6], positive=True), SymObj(ps[7])]
+            self.Delta, self.settings = atom(ps[6]), ps[7]
+        self.sc, self.grad = sc, g
+        self.flag = f"{self.settings}.{MODE_FLAG}"
+        self.paths = it.run_paths(it.fn(sc), args)
+        lab = lambda n: it.module_attr(ES, n)
+        self.lab_neg, self.lab_bnd, self.lab_int = lab("negCurveString"), lab("boundaryString"), lab("interiorString")
+        if not all(isinstance(x, str) for x in (self.lab_neg, self.lab_bnd, self.lab_int)):
+            raise Incomplete("step-type constants negCurveString / boundaryString / interiorString are not string constants of EquationSolver")
+        self.on_bnd = it.module_attr(ES, "is_on_boundary")
+        self._classify()
+        self._roles()
+
+    # ---- helpers
+    def mode(self, p):
+        for f in p.facts:
+            if nrm(f.d).atoms() == {self.flag} and req(f.d, atom(self.flag)):
+                return "M" if f.rel == "!=" else ("I" if f.rel == "==" else None)
+        return None
+
+    def inner(self, m):
+        if m == "M":
+            return lambda u, v: self.it.dot(u, self.Pinv.apply(v)).a
+        return lambda u, v: self.it.dot(u, v).a
+
+    def is_boundary_label(self, lab):
+        if isinstance(self.on_bnd, Closure):
+            try:
+                return bool(self.it.call(self.on_bnd, [lab], {}))
+            except EVAL_ERRORS:
+                pass
+        return lab in (self.lab_neg, self.lab_bnd)
+
+    def loop_rec(self, p):
+        for lk, L in p.loops.items():
+            return lk, L
+        return None, None
+
+    def where(self, p):
+        lk, L = self.loop_rec(p)
+        if L is None:
+            return "pre"
+        for ev in p.events:
+            if ev[0] == "loop" and ev[1] == L["name"]:
+                return "in" if ev[2] == "enter" else "post"
+        return "pre"
+
+    def _classify(self):
+        self.exits, self.backs, self.errors, self.odd = [], [], [], []
+        for p in self.paths:
+            if p.kind == "error":
+                self.errors.append(p)
+            elif p.kind == "backedge":
+                self.backs.append(p)
+            elif p.kind == "return":
+                v = p.value
+                labs = [x for x in v[1:] if isinstance(x, str)] if isinstance(v, tuple) else []
+                if isinstance(v, tuple) and v and isinstance(v[0], FV) and labs:
+                    p.step, p.label = v[0], labs[0]
+                    self.exits.append(p)
+                else:
+                    self.odd.append(p)
+            else:
+                self.odd.append(p)
+        self.modes = sorted({self.mode(p) for p in self.paths if self.mode(p)}) or ["I"]
+        self.has_modes = any(self.mode(p) for p in self.paths)
+
+    def pmode(self, p):
+        return self.mode(p) or ("I" if not self.has_modes else None)
+
+    def _roles(self):
+        it = self.it
+        inloop = [p for p in self.exits + self.backs if self.where(p) == "in"]
+        self.hv, self.hs = {}, {}
+        self.loop_key = None
+        if not inloop:
+            return
+        lk, L = self.loop_rec(inloop[0])
+        self.loop_key = lk
+        for pth, val in snapshot_leaves(L["head"]).items():
+            if isinstance(val, FV) and len(val.t) == 1:
+                (a, c), = val.t.items()
+                if a[0] == () and req(c, ONE):
+                    self.hv[pth] = a[1]
+            elif isinstance(val, Dual):
+                ats = nrm(val.a).atoms()
+                if len(ats) == 1 and req(val.a, atom(next(iter(ats)))):
+                    self.hs[pth] = next(iter(ats))
+        self.leaf_of = {v: k for k, v in list(self.hv.items()) + list(self.hs.items())}
+        hsyms = set(self.hv.values())
+        # iterate / direction: a boundary-type exit returns  1*Z + tau*D  over head vectors
+        cands = {}
+        for p in self.exits:
+            if self.where(p) == "in" and self.is_boundary_label(p.label):
+                V = p.step
+                ats = list(V.t)
+                if len(ats) == 2 and all(a[0] == () and a[1] in hsyms for a in ats):
+                    ones = [a for a in ats if req(V.t[a], ONE)]
+                    if len(ones) == 1:
+                        Z = ones[0][1]
+                        D = [a for a in ats if a is not ones[0]][0][1]
+                        cands[(Z, D)] = cands.get((Z, D), 0) + 1
+        if not cands:
+            for p in self.backs:
+                lv = snapshot_leaves(p.snapshot)
+                for pth, Z in self.hv.items():
+                    zn = lv.get(pth)
+                    if isinstance(zn, FV) and len(zn.t) == 2 and req(zn.coef(((), Z)), ONE):
+                        other = [a for a in zn.t if a != ((), Z)][0]
+                        if other[0] == () and other[1] in hsyms:
+                            dn = lv.get(self.leaf_of[other[1]])
+                            if isinstance(dn, FV) and not dn.coef(other).n.is_zero():
+                                cands[(Z, other[1])] = cands.get((Z, other[1]), 0) + 1
+        self.Z = self.D = None
+        if cands:
+            (self.Z, self.D), _ = max(cands.items(), key=lambda kv: kv[1])
+        # residual: the carried vector that is the gradient argument on entry
+        self.Rsym = None
+        for pth, s in self.hv.items():
+            e0 = snapshot_leaves(L["entry"]).get(pth)
+            if isinstance(e0, FV) and e0.same(self.grad):
+                self.Rsym = s
+        # step data per mode from the back-edge states
+        self.step = {}
+        for p in self.backs:
+            m = self.pmode(p)
+            if m is None or self.Z is None:
+                continue
+            lv = snapshot_leaves(p.snapshot)
+            zn, dn = lv.get(self.leaf_of[self.Z]), lv.get(self.leaf_of[self.D])
+            if not (isinstance(zn, FV) and isinstance(dn, FV)):
+                continue
+            aZ, aD = ((), self.Z), ((), self.D)
+            a = zn.coef(aD)
+            st = {"path": p, "leaves": lv, "z": zn, "d": dn, "a": a, "z_ok": zn.same(FV({aZ: ONE, aD: a}))}
+            b = dn.coef(aD)
+            W = dn.add(FV({aD: b}), -1)
+            st["b"] = b
+            rho = None
+            if W.t and all(w and w[0] == "P" for (w, s) in W.t):
+                rho = FV({(w[1:], s): -c for (w, s), c in W.t.items()})
+            st["rho"] = rho
+            self.step.setdefault(m, []).append(st)
+        # Gram-tracking scalars per mode
+        self.mu = {}
+        for m in self.modes:
+            self.mu[m] = self._find_mu(m)
+
+    def gram_names(self, m):
+        ip = self.inner(m)
+        Z, D = FV.sym(self.Z), FV.sym(self.D)
+        out = []
+        for (u, v) in ((Z, Z), (Z, D), (D, D)):
+            r = nrm(ip(u, v))
+            out.append(next(iter(r.atoms())))
+        return out
+
+    def _find_mu(self, m):
+        """{gram atom: Rat} -- what the code uses for <z,z>, <z,d>, <d,d> of the loop-head iterate / direction: the assignment under
+        which a boundary-type exit has norm Delta.  Normally three loop-carried scalars; one of the three may also be an expression that is
+        *solved* from the exit identity (it is affine in each Gram product), e.g. a constant.  {} when no tracked scalar is needed."""
+        if self.Z is None:
+            return None
+        ip = self.inner(m)
+        G = self.gram_names(m)
+        want = self.Delta * self.Delta
+        hs = list(self.hs.values())
+        cands = []
+        for p in self.exits:
+            if self.where(p) != "in" or not self.is_boundary_label(p.label) or self.pmode(p) not in (m, None):
+                continue
+            V = p.step
+            if not set(V.t) <= {((), self.Z), ((), self.D)}:
+                continue
+            N2 = nrm(ip(V, V))
+            if req(N2, want):
+                return {}
+            cands.append(N2)
+        for N2 in cands:
+            used = [h for h in hs if h in atoms_of(N2)]
+            # each Gram product is tracked by a carried scalar or computed directly from the current vectors (None)
+            opts = [None] + used
+            combos = [(x, y, w) for x in opts for y in opts for w in opts
+                      if len({v for v in (x, y, w) if v is not None}) == len([v for v in (x, y, w) if v is not None])]
+            combos.sort(key=lambda c: sum(v is None for v in c))
+            for c in combos:
+                mp = {g: atom(h) for g, h in zip(G, c) if h is not None}
+                if mp and req(subst(N2, mp), want):
+                    return mp
+        # fall back on the step law  s1' = s1 + 2 a s2 + a^2 s3  (squared length of z + a d)
+        for st in self.step.get(m, []):
+            a = st["a"]
+            for perm in permutations(hs, 3):
+                s1, s2, s3 = (atom(h) for h in perm)
+                v = st["leaves"].get(self.leaf_of[perm[0]])
+                if isinstance(v, Dual) and not a.n.is_zero() and req(v.a, s1 + R(2) * a * s2 + a * a * s3):
+                    return {g: atom(h) for g, h in zip(G, perm)}
+        # two carried scalars, the third Gram product solved from the exit identity
+        for N2 in cands:
+            used = [h for h in hs if h in atoms_of(N2)]
+            for k in range(3):
+                others = [g for i, g in enumerate(G) if i != k]
+                for perm in permutations(used, 2):
+                    mp = {g: atom(h) for g, h in zip(others, perm)}
+                    e = subst(N2, mp)
+                    if e.d != Poly.const(1) and G[k] in e.d.atoms():
+                        continue
+                    if e.n.degree_in(G[k]) != 1:
+                        continue
+                    A_ = Rat(e.n.diff(G[k]), e.d)
+                    B_ = nrm(e - A_ * atom(G[k]))
+                    if A_.n.is_zero():
+                        continue
+                    sol = nrm((want - B_) / A_)
+                    ats = atoms_of(sol)
+                    if any(x.startswith("sqrt[") or x in self.it.gram_info for x in ats) or (nrm(self.Delta).atoms() & ats):
+                        continue
+                    mp[G[k]] = sol
+                    return mp
+        return None
+
+    def mu_map(self, m):
+        return self.mu.get(m)
+
+    def at_state(self, e: Rat, leaves):
+        """value of an expression over loop-head scalars in another state (entry / back edge): head atoms replaced by that state's leaves"""
+        mp = {}
+        for h in set(self.hs.values()) & atoms_of(e):
+            v = leaves.get(self.leaf_of[h])
+            if isinstance(v, bool) or not isinstance(v, (Dual, int, float)):
+                return None
+            mp[h] = rat(v)
+        return subst(e, mp)
+
+    def head_atoms(self):
+        return set(self.hs.values())
+
+    def has_head(self, r: Rat):
+        """does the value depend on the loop state (head scalars, Gram atoms over head vectors)?"""
+        hs, hv = set(self.hs.values()), set(self.hv.values())
+        for a in atoms_of(r):
+            if a in hs:
+                return True
+            info = self.it.gram_info.get(a)
+            if info and (info[0] in hv or info[2] in hv):
+                return True
+        return False
+
+
+def _ratio_const(e: Rat, want: Rat):
+    """c with e == c * want (a rational constant), else None"""
+    want = nrm(want)
+    if want.n.is_zero():
+        return None
+    return rat_const(nrm(e / want))
+
+
+def _fact_about(facts, want: Rat, root_of=None):
+    """[(direction, fact)]: facts that bound `want`: direction '+' means the fact says want > 0 / >= 0, '-' means want < 0 / <= 0.
+    root_of = (it, Delta): also read  sqrt(q) - Delta  as a statement about  q - Delta^2  (both sides non-negative)"""
+    out = []
+    for f in facts:
+        if f.rel in ("==", "!="):
+            continue
+        c = _ratio_const(f.d, want)
+        if (c is None or c == 0) and root_of is not None:
+            it_, Dl = root_of
+            for sgn in (1, -1):
+                lhs = nrm((f.d if sgn > 0 else -f.d) + Dl)          # candidate sqrt(q)
+                s_ = it_.sign_of(lhs)
+                if s_ is not None and s_ >= 0 and any(x.startswith("sqrt[") for x in lhs.atoms()):
+                    c2 = _ratio_const(nrm(lhs * lhs - Dl * Dl), want)
+                    if c2 is not None and c2 > 0:
+                        c = Fraction(sgn)
+                        break
+        if c is None or c == 0:
+            continue
+        pos = f.rel in (">", ">=")
+        if c < 0:
+            pos = not pos
+        out.append(("+" if pos else "-", f))
+    return out
+
+
+def d1_cg_solvers(ctx):
+    for which in ("STM", "TRCG"):
+        try:
+            cg = _CG(ctx, which)
+        except Incomplete as e:
+            ctx.undecided("D1/T1-labelled-exits", None, None, construct=f"{which}: solver not analysable", detail=str(e))
+            continue
+        _cg_obligations(ctx, cg, which)
+        _touch(ctx, cg.it)
+
+
+def _cg_obligations(ctx, cg, which):
+    rule = "D1/T1-labelled-exits"
+    rrule = "D1/T7-recurrences"
+    it, sc = cg.it, cg.sc
+    D2 = cg.Delta * cg.Delta
+    seen_err = set()
+    for p in cg.errors + cg.odd:
+        msg = p.error or f"path ends with {p.kind}: {_show(p.value)}"
+        if msg not in seen_err:
+            seen_err.add(msg)
+            ctx.undecided(rule, sc, p.ret_node, construct="path-not-interpreted", detail=msg)
+    if which == "STM" and cg.modes != ["I", "M"]:
+        ctx.undecided(rule, sc, None, construct="inner-product-modes",
+                      detail=f"paths found for the modes {cg.modes}; both settings of {MODE_FLAG} must be analysed")
+    if cg.Z is None:
+        ctx.undecided(rule, sc, None, construct="iterate-and-direction", detail="no exit returning 1*z + tau*d over loop-carried vectors and no such step at the back edge")
+        return
+    aZ, aD = ((), cg.Z), ((), cg.D)
+    Zv, Dv = FV.sym(cg.Z), FV.sym(cg.D)
+    kappa = it.dot(Dv, cg.H.apply(Dv)).a
+    # carried scalars that hold the curvature <d,Hd> of the current direction (base + step)
+    curv = [kappa]
+    lk = cg.loop_key
+    for pth, h in cg.hs.items():
+        ok = bool(cg.backs)
+        for p in cg.backs:
+            L = p.loops[lk]
+            e0 = snapshot_leaves(L["entry"])
+            d0, s0 = e0.get(cg.leaf_of[cg.D]), e0.get(pth)
+            lv = snapshot_leaves(p.snapshot)
+            d1, s1 = lv.get(cg.leaf_of[cg.D]), lv.get(pth)
+            if not (isinstance(d0, FV) and isinstance(d1, FV) and isinstance(s0, (Dual, int, float)) and isinstance(s1, Dual)):
+                ok = False
+                break
+            if not (req(rat(s0), it.dot(d0, cg.H.apply(d0)).a) and req(s1.a, it.dot(d1, cg.H.apply(d1)).a)):
+                ok = False
+                break
+        if ok:
+            curv.append(atom(h))
+
+    def facts_in_loop(p):
+        L = p.loops.get(lk)
+        return p.facts[L["facts_at_entry"]:] if L else []
+
+    def curvature_facts(p):
+        out = []
+        for k in curv:
+            out += _fact_about(facts_in_loop(p), k)
+        return out
+
+    def sqnorm(V, m):
+        mp = cg.mu_map(m)
+        if mp is None:
+            return None
+        return subst(cg.inner(m)(V, V), mp)
+
+    def only_ZD(V):
+        return set(V.t) <= {aZ, aD}
+
+    def step_length(m):
+        for st in cg.step.get(m, []):
+            return st["a"]
+        for p in cg.exits:
+            if cg.where(p) == "in" and p.label == cg.lab_int and cg.pmode(p) in (m, None) and only_ZD(p.step) and req(p.step.coef(aZ), ONE):
+                return p.step.coef(aD)
+        return None
+
+    def modes_of(p):
+        m = cg.pmode(p)
+        return [m] if m else list(cg.modes)
+
+    # ---------------- exits
+    groups = {}
+    for p in cg.exits:
+        groups.setdefault((id(p.ret_node), p.label), []).append(p)
+    n_lab = 0
+    for (rid, label), ps in groups.items():
+        node = ps[0].ret_node
+        n_lab += 1
+        if cg.is_boundary_label(label):
+            kind = "negcurve" if label == cg.lab_neg else "boundary"
+            vs = []
+            for p in ps:
+                if cg.where(p) != "in":
+                    vs.append((None, f"exit labelled {label!r} outside the CG loop"))
+                    continue
+                for m in modes_of(p):
+                    N2 = sqnorm(p.step, m)
+                    if N2 is None:
+                        vs.append((None, f"the scalars tracking <z,z>, <z,d>, <d,d> could not be identified in mode {m}"))
+                    elif req(N2, D2):
+                        vs.append((True, f"mode {m}: |{_show(p.step, 70)}|^2 = Delta^2"))
+                    elif only_ZD(p.step):
+                        vs.append((False, f"exit labelled {label!r} returns `{_show(p.step, 120)}` whose squared norm (mode {m}) is {_show(N2, 200)}, "
+                                          f"not Delta^2: the point is not the projection onto the trust-region boundary"))
+                    else:
+                        vs.append((None, f"returned point {_show(p.step)} has components besides the iterate and the direction"))
+            ok, det = _combine(vs)
+            ctx.decide(rule, ok, sc, node, construct=f"{kind}-exit-returns-projection", detail=det, bad_detail=det)
+            vs = []
+            for p in ps:
+                if cg.where(p) != "in":
+                    continue
+                if kind == "negcurve":
+                    fs = curvature_facts(p)
+                    if any(dr == "-" for dr, f in fs):
+                        vs.append((True, "under <d,Hd> <= 0"))
+                    elif fs:
+                        vs.append((False, f"the exit labelled negative-curvature is reached with <d,Hd> {fs[0][1].rel} 0 "
+                                          f"(path fact `{_show(fs[0][1])}`), not under <d,Hd> <= 0"))
+                    else:
+                        vs.append((None, "no path fact about the curvature <d,Hd> of the current direction"))
+                else:
+                    for m in modes_of(p):
+                        a = step_length(m)
+                        q = sqnorm(FV({aZ: ONE, aD: a}), m) if a is not None else None
+                        if q is None:
+                            vs.append((None, "tentative step not identified"))
+                            continue
+                        fs = _fact_about(facts_in_loop(p), q - D2, root_of=(it, cg.Delta))
+                        if any(dr == "+" for dr, f in fs):
+                            vs.append((True, f"mode {m}: under |z + a d|^2 > Delta^2"))
+                        elif fs:
+                            vs.append((False, f"the exit labelled boundary is taken under `{_show(fs[0][1])}`: the tentative step z + a d is then inside the region (mode {m})"))
+                        else:
+                            vs.append((None, f"no path fact compares the squared length of the tentative step z + a d with Delta^2 (mode {m})"))
+            ok, det = _combine(vs)
+            ctx.decide(rule, ok, sc, node, construct=f"{kind}-exit-guard", detail=det, bad_detail=det)
+        elif label == cg.lab_int:
+            vs, vin = [], []
+            for p in ps:
+                w = cg.where(p)
+                V = p.step
+                if w == "pre":
+                    rho = cg.grad.add(cg.H.apply(V))
+                    facts = p.facts
+                elif w == "in" and cg.Rsym is not None:
+                    rho = FV.sym(cg.Rsym).add(cg.H.apply(V.add(Zv, -1)))
+                    facts = facts_in_loop(p)
+                else:
+                    vs.append((None, "interior exit after the loop / residual vector not identified"))
+                    continue
+                mm = it.dot(rho, rho).a
+                hit = None
+                for f in facts:
+                    g = fact_ge(f)
+                    if g is None or f.rel not in ("<", "<="):
+                        continue
+                    t = nrm(mm - f.d)
+                    # the fact is  |residual|^2 - t < 0  with a tolerance t that does not depend on the loop state
+                    if not cg.has_head(t) and not (nrm(t).atoms() & nrm(mm).atoms()) and (nrm(f.d).atoms() & nrm(mm).atoms()):
+                        hit = (f, t)
+                        break
+                    # ... or  |residual| - t < 0  (norm instead of squared norm)
+                    try:
+                        it.path = p                     # signs known on this path decide how the root is normalised
+                        rt = it.sqrt(S(mm)).a
+                    except EVAL_ERRORS:
+                        continue
+                    finally:
+                        it.path = None
+                    t = nrm(rt - f.d)
+                    if not cg.has_head(t) and not (nrm(t).atoms() & nrm(rt).atoms()) and (nrm(f.d).atoms() & nrm(rt).atoms()):
+                        hit = (f, t)
+                        break
+                if hit:
+                    vs.append((True, f"returns {_show(V, 60)} under |residual of that point|^2 < {_show(hit[1], 60)}"))
+                else:
+                    stale = None
+                    if w == "in":
+                        # is the tolerance test about the residual of another point of this iteration (previous iterate / tentative iterate)?
+                        others = [("the previous iterate", Zv)]
+                        for m in modes_of(p):
+                            a = step_length(m)
+                            if a is not None:
+                                others.append(("the tentative iterate z + a d", FV({aZ: ONE, aD: a})))
+                        for (what, X) in others:
+                            if X.same(V):
+                                continue
+                            rx = FV.sym(cg.Rsym).add(cg.H.apply(X.add(Zv, -1)))
+                            m0 = it.dot(rx, rx).a
+                            if req(m0, mm):
+                                continue
+                            for f in facts:
+                                t = nrm(m0 - f.d)
+                                if f.rel in ("<", "<=") and not cg.has_head(t) and not (nrm(t).atoms() & nrm(m0).atoms()) and (nrm(f.d).atoms() & nrm(m0).atoms()):
+                                    stale = (f, what)
+                    if stale is not None:
+                        vs.append((False, f"exit labelled interior returns {_show(V, 80)} but the tolerance test `{_show(stale[0])}` is about the residual "
+                                          f"of {stale[1]}, not of the returned point"))
+                    else:
+                        vs.append((None, f"no path fact bounds the squared residual {_show(mm, 80)} of the returned point by a loop-independent tolerance"))
+                # inside the region
+                if w == "pre":
+                    vin.append((True, "zero step") if V.is_zero() else (None, f"pre-loop interior exit returns {_show(V)}"))
+                elif w == "in":
+                    for m in modes_of(p):
+                        if V.same(Zv):
+                            vin.append((True, "returns the loop-head iterate (inside by the loop invariant)"))
+                            continue
+                        q = sqnorm(V, m)
+                        if q is None or not only_ZD(V):
+                            vin.append((None, "squared norm of the returned point not expressible in the tracked scalars"))
+                            continue
+                        fs = _fact_about(facts, q - D2, root_of=(it, cg.Delta))
+                        if any(dr == "-" for dr, f in fs):
+                            vin.append((True, f"mode {m}: under |step|^2 <= Delta^2"))
+                        elif fs:
+                            vin.append((False, f"exit labelled interior returns {_show(V, 80)} under `{_show(fs[0][1])}`: the step is outside the trust region (mode {m})"))
+                        else:
+                            vin.append((None, f"no path fact bounds the squared norm of the returned point by Delta^2 (mode {m})"))
+            ok, det = _combine(vs)
+            ctx.decide(rule, ok, sc, node, construct="interior-exit", detail=det, bad_detail=det)
+            if vin:
+                ok, det = _combine(vin)
+                ctx.decide(rule, ok, sc, node, construct="interior-exit-inside-region", detail=det, bad_detail=det)
+        else:
+            vs = []
+            for p in ps:
+                if p.step.same(Zv) and cg.where(p) == "post":
+                    vs.append((True, f"label {label!r} (iteration cap): returns the current iterate"))
+                else:
+                    vs.append((None, f"exit labelled {label!r} returns {_show(p.step)}"))
+            ok, det = _combine(vs)
+            ctx.decide(rule, ok, sc, node, construct="iteration-cap-exit", detail=det, bad_detail=det)
+    if n_lab < 3:
+        ctx.undecided(rule, sc, None, construct="labelled-exits", detail=f"{n_lab} labelled exits found")
+
+    # ---------------- a step is taken only along positive curvature; the iterate stays inside
+    vs, vin = [], []
+    for p in cg.backs:
+        fs = curvature_facts(p)
+        if any(dr == "+" and f.rel in (">", "<") for dr, f in fs):
+            vs.append((True, "the iteration continues only under <d,Hd> > 0"))
+        elif any(dr == "-" for dr, f in fs):
+            vs.append((False, f"the iterate is advanced along d under `{_show([f for dr, f in fs if dr == '-'][0])}`: a step along a direction of non-positive curvature"))
+        else:
+            vs.append((None, "no path fact about <d,Hd> on the continuing path"))
+        for m in modes_of(p):
+            sts = [s for s in cg.step.get(m, []) if s["path"] is p]
+            if not sts:
+                vin.append((None, "back-edge state not readable"))
+                continue
+            q = sqnorm(sts[0]["z"], m)
+            if q is None or not only_ZD(sts[0]["z"]):
+                vin.append((None, f"squared norm of the new iterate not expressible in the tracked scalars (mode {m})"))
+                continue
+            fs2 = _fact_about(facts_in_loop(p), q - D2, root_of=(it, cg.Delta))
+            if any(dr == "-" for dr, f in fs2):
+                vin.append((True, f"mode {m}: the new iterate satisfies |z'|^2 <= Delta^2"))
+            elif fs2:
+                vin.append((False, f"the iteration continues under `{_show(fs2[0][1])}`: the new iterate is outside the trust region (mode {m})"))
+            else:
+                vin.append((None, f"no path fact bounds |z'|^2 by Delta^2 on the continuing path (mode {m})"))
+    if cg.backs:
+        ok, det = _combine(vs)
+        ctx.decide(rule, ok, sc, None, construct="step-only-on-positive-curvature", detail=det, bad_detail=det)
+        ok, det = _combine(vin)
+        ctx.decide(rule, ok, sc, None, construct="iterate-stays-inside", detail=det, bad_detail=det)
+    else:
+        ctx.undecided(rule, sc, None, construct="back-edge", detail="no path reaches the back edge of the CG loop")
+
+    # ---------------- the carried residual is the model gradient at the iterate: r = g + H z  (base: r0 = g, z0 = 0; step: r' - r = H (z' - z))
+    if cg.Rsym is not None and cg.backs:
+        vs = []
+        for p in cg.backs:
+            lv = snapshot_leaves(p.snapshot)
+            e0 = snapshot_leaves(p.loops[lk]["entry"])
+            r1, z1 = lv.get(cg.leaf_of[cg.Rsym]), lv.get(cg.leaf_of[cg.Z])
+            r0, z0 = e0.get(cg.leaf_of[cg.Rsym]), e0.get(cg.leaf_of[cg.Z])
+            if not all(isinstance(x, FV) for x in (r1, z1, r0, z0)):
+                vs.append((None, "residual / iterate not readable at the back edge"))
+                continue
+            if not r0.same(cg.grad.add(cg.H.apply(z0))):
+                vs.append((False, f"on entry the residual is {_show(r0, 80)} but the model gradient at the initial iterate {_show(z0, 40)} is g + H z0"))
+                continue
+            want = FV.sym(cg.Rsym).add(cg.H.apply(z1.add(Zv, -1)))
+            if r1.same(want):
+                vs.append((True, "r' = r + H (z' - z): the residual stays the model gradient g + H z at the iterate"))
+            else:
+                vs.append((False, f"the residual becomes {_show(r1, 120)} while the iterate moves by {_show(z1.add(Zv, -1), 80)}: it must change by H (z' - z) "
+                                  f"to remain the model gradient g + H z (the interior test is made on it)"))
+        ok, det = _combine(vs)
+        ctx.decide(rule, ok, sc, None, construct="residual-is-model-gradient", detail=det, bad_detail=det)
+
+    # ---------------- tracked Gram scalars: base and step
+    for m in cg.modes:
+        mp = cg.mu.get(m)
+        tag = m if cg.has_modes else "I"
+        if mp is None:
+            ctx.undecided(rule, sc, None, construct=f"tracked-inner-products:{tag}", detail="no assignment of carried scalars to <z,z>, <z,d>, <d,d> makes a boundary exit have norm Delta")
+            continue
+        if not mp:
+            ctx.proved(rule, sc, None, construct=f"tracked-inner-products:{tag}", detail="the exits compute <z,z>, <z,d>, <d,d> from the current z, d (no tracked scalars)")
+            continue
+        G = cg.gram_names(m)
+        ip = cg.inner(m)
+        sts = cg.step.get(m, [])
+        if not sts:
+            ctx.undecided(rule, sc, None, construct=f"tracked-inner-products:{tag}", detail="no back-edge state in this mode")
+            continue
+        for st in sts:
+            p = st["path"]
+            L = p.loops[lk]
+            e0 = snapshot_leaves(L["entry"])
+            z0, d0 = e0.get(cg.leaf_of[cg.Z]), e0.get(cg.leaf_of[cg.D])
+            names = ("zz", "zd", "dd")
+            pairs0 = ((z0, z0), (z0, d0), (d0, d0))
+            zn, dn, a, b = st["z"], st["d"], st["a"], st["b"]
+            pairs1 = ((zn, zn), (zn, dn), (dn, dn))
+            mpr = cg.mu_map(m)
+            tracked = {nm: mp.get(G[k], atom(G[k])) for k, nm in enumerate(names)}
+            for k, nm in enumerate(names):
+                if G[k] not in mp:
+                    continue            # computed from the current vectors where it is used
+                v0 = cg.at_state(tracked[nm], e0)
+                if isinstance(z0, FV) and isinstance(d0, FV) and v0 is not None:
+                    want0 = ip(*pairs0[k])
+                    ctx.decide(rule, req(v0, want0), sc, None, construct=f"initial-{nm}:{tag}",
+                               detail=f"on entry the tracked value is {_show(v0, 60)} = <.,.> of the initial z, d in the mode's inner product",
+                               bad_detail=f"on entry the value used for {nm} is {_show(v0, 80)}, but the inner product of the initial vectors is {_show(want0, 80)} (mode {m})")
+                else:
+                    ctx.undecided(rule, sc, None, construct=f"initial-{nm}:{tag}", detail="entry state not readable")
+            # step
+            v1 = {nm: (cg.at_state(tracked[nm], st["leaves"]) if G[k] in mp else ip(*pairs1[k])) for k, nm in enumerate(names)}
+            if any(v is None for v in v1.values()) or not st["z_ok"]:
+                ctx.undecided(rule, sc, None, construct=f"zz-advanced:{tag}", detail="back-edge state not readable / iterate not of the form z + a d")
+                continue
+            v1 = {nm: S(v) for nm, v in v1.items()}
+            zzA, zdA, ddA = (tracked[nm] for nm in names)
+            want_zz = zzA + R(2) * a * zdA + a * a * ddA
+            ctx.decide(rule, req(subst(v1["zz"].a, mpr), want_zz), sc, None, construct=f"zz-advanced:{tag}",
+                       detail="zz' = zz + 2 a zd + a^2 dd = <z + a d, z + a d> for the step length a of the new iterate",
+                       bad_detail=f"the value used for <z,z> is {_show(v1['zz'], 160)} in the next iteration; for the new iterate z + a d (a = {_show(a, 60)}) "
+                                  f"it must be zz + 2 a zd + a^2 dd = {_show(nrm(want_zz), 160)}")
+            if m == "I":
+                for nm, (u, v) in (("zd", (zn, dn)), ("dd", (dn, dn))):
+                    want = subst(ip(u, v), mpr)
+                    got = subst(v1[nm].a, mpr)
+                    ok = req(got, want)
+                    det = f"{nm}' = <{'z' if nm == 'zd' else 'd'}',d'> of the new iterate / direction"
+                    bad = f"Euclidean mode: the scalar tracking {nm} becomes {_show(got, 160)}, not the inner product of the new {'iterate and ' if nm == 'zd' else ''}direction"
+                    if not ok:
+                        # diagnosis: a stale operand
+                        olds = {"z": Zv, "d": Dv}
+                        for who, old in olds.items():
+                            u2 = old if (who == "z" and nm == "zd") else u
+                            v2 = old if who == "d" else v
+                            if who == "d" and nm == "dd":
+                                u2 = old
+                            if req(got, subst(ip(u2, v2), mpr)):
+                                bad += f": it is computed from the {who} of the previous iteration (stale operand)"
+                    ctx.decide(rrule, ok, sc, None, construct=f"{nm}-direct", detail=det, bad_detail=bad)
+                    if ok:
+                        for who in (("z", "d") if nm == "zd" else ()):
+                            ctx.proved(rrule, sc, None, construct=f"recurrence-argument-current:{who}", detail=f"the new {who} enters {nm}'")
+            else:
+                rho = st["rho"]
+                want_zd = b * (zdA + a * ddA)
+                ok_zd = req(subst(v1["zd"].a, mpr), want_zd)
+                bad = f"<z,d>_M recurrence gives {_show(v1['zd'], 200)}, expected b (zd + a dd) with a, b the coefficients of d in the new iterate / direction"
+                ctx.decide(rrule, ok_zd, sc, None, construct="zd-recurrence", detail="zd' = b (zd + a dd)", bad_detail=bad)
+                if rho is None:
+                    ctx.undecided(rrule, sc, None, construct="dd-recurrence", detail=f"new direction {_show(dn)} is not -P(r') + b d")
+                    continue
+                rPr = it.dot(rho, cg.P.apply(rho)).a
+                want_dd = rPr + b * b * ddA
+                ok_dd = req(subst(v1["dd"].a, mpr), subst(want_dd, mpr))
+                bad = f"<d,d>_M recurrence gives {_show(v1['dd'], 200)}, expected <r',P r'> + b^2 dd for the new direction -P r' + b d"
+                if not ok_dd and cg.Rsym is not None:
+                    R0 = FV.sym(cg.Rsym)
+                    stale = it.dot(R0, cg.P.apply(R0)).a
+                    # the carried scalar holding <r,P r> of the previous residual
+                    cand = [stale] + [atom(h) for h in cg.hs.values()]
+                    for c in cand:
+                        if req(v1["dd"].a, c + b * b * ddA):
+                            bad += f": the residual term is {_show(c, 60)}, a value from before this iteration's update (stale quantity)"
+                            break
+                    if req(v1["dd"].a, rPr + b * ddA):
+                        bad += ": dd is multiplied by b instead of b^2"
+                ctx.decide(rrule, ok_dd, sc, None, construct="dd-recurrence", detail="dd' = <r',P r'> + b^2 dd", bad_detail=bad)
+                if ok_zd and ok_dd:
+                    for who in ("rPr", "alpha", "beta"):
+                        ctx.proved(rrule, sc, None, construct=f"recurrence-argument-current:{who}",
+                                   detail="the recurrences use this iteration's step length a, direction weight b and residual r'")
+                    for who in ("zd", "dd"):
+                        ctx.proved(rrule, sc, None, construct=f"recurrence-argument-previous:{who}",
+                                   detail="the recurrences start from the previous iteration's tracked values")
 
 
 # ------------------------------------------------------------------ D2: dogleg
 
+def _witness(it, facts, setup, bad, n=240, seed0=7):
+    """a numeric instance of the extracted formulas in which every path fact holds and `bad(sample)` is true -> (description, sample)"""
+    for k in range(n):
+        smp = Sample(it, seed=seed0 + k)
+        try:
+            setup(smp)
+            # free flags / scalars that a fact pins down directly
+            for f in facts:
+                d = nrm(f.d)
+                ats = d.atoms()
+                if len(ats) == 1:
+                    a_ = next(iter(ats))
+                    if a_ not in it.gram_info and a_ not in it.atom_eval and not a_.startswith("sqrt[") and a_ not in smp.scalars and req(d, atom(a_)):
+                        smp.scalars[a_] = {"==": 0.0, "!=": 1.0, ">": smp.rng.uniform(0.2, 2), ">=": smp.rng.uniform(0.2, 2),
+                                           "<": -smp.rng.uniform(0.2, 2), "<=": -smp.rng.uniform(0.2, 2)}[f.rel]
+            if not all(smp.holds(f) for f in facts):
+                continue
+            r = bad(smp)
+        except (SampleInvalid, KeyError, ZeroDivisionError, OverflowError, ValueError):
+            continue
+        if r:
+            return r, smp
+    return None, None
+
+
 def d2_dogleg(ctx):
     rule = "D2/T1-dogleg"
-    dg = ctx.need(f"{ES}:dogleg_step")
-    cfg = cfg_of(dg)
-    cp, nw, tr, mm = dg.params()
-    # named squared norms
-    def sq_of(name):
-        for n in cfg.nodes:
-            if n.kind == "stmt" and isinstance(n.ast, ast.Assign) and isinstance(n.ast.targets[0], ast.Name):
-                if same(n.ast.value, f"{name} @ {mm}({name})"):
-                    return n.ast.targets[0].id
-        return None
-    cc, nn = sq_of(cp), sq_of(nw)
-    tt = None
-    for n in cfg.nodes:
-        if n.kind == "stmt" and isinstance(n.ast, ast.Assign) and isinstance(n.ast.targets[0], ast.Name) and \
-                (same(n.ast.value, f"{tr}*{tr}") or same(n.ast.value, f"{tr}**2")):
-            tt = n.ast.targets[0].id
-    if not (cc and nn and tt):
-        ctx.undecided(rule, dg, None, construct="squared-norms", detail=f"cc={cc} nn={nn} tt={tt}")
+    it = SymInterp(ctx.repo)
+    M = it.op("M", spd=True)
+    sc = ctx.need(f"{ES}:dogleg_step")
+    ps = sc.params()
+    if len(ps) != 4:
+        ctx.undecided(rule, sc, None, construct="signature", detail=f"{len(ps)} parameters, the public interface has 4")
         return
-    def facts_of(r):
-        out = []
-        for (c, l) in cfg.edge_facts(r):
-            if c.kind == "cond":
-                for (a, pol) in cond_atoms(c.ast, l):
-                    out.append((a, pol))
-        return out
-    def implies_le(facts, a, b):
-        """facts imply a <= b (a, b variable names)"""
-        for (f, pol) in facts:
-            if isinstance(f, ast.Compare) and len(f.ops) == 1 and isinstance(f.left, ast.Name) and isinstance(f.comparators[0], ast.Name):
-                l, r_, op = f.left.id, f.comparators[0].id, type(f.ops[0]).__name__
-                if not pol:
-                    op = {"Gt": "LtE", "GtE": "Lt", "Lt": "GtE", "LtE": "Gt"}[op]
-                if (l, r_) == (a, b) and op in ("Lt", "LtE"):
-                    return True
-                if (l, r_) == (b, a) and op in ("Gt", "GtE"):
-                    return True
-        return False
-    for r in cfg.returns():
-        v = r.ast.value
-        fs = facts_of(r)
-        if isinstance(v, ast.Name) and v.id == cp:
-            ok = implies_le(fs, cc, tt)
-            ctx.decide(rule, ok, dg, r.ast, construct="return-cauchy-point", detail="Cauchy point returned only when inside the region",
-                       bad_detail="the Cauchy point can be returned without `cc < tt` holding: the step may leave the trust region")
-        elif isinstance(v, ast.Name) and v.id == nw:
-            ok = implies_le(fs, nn, tt)
-            ctx.decide(rule, ok, dg, r.ast, construct="return-newton-point", detail="quasi-Newton point returned only when inside the region",
-                       bad_detail="the quasi-Newton point can be returned without `nn <= tt` holding: the step may leave the trust region")
-        elif isinstance(v, ast.BinOp) and isinstance(v.op, ast.Mult):
-            # cp * sqrt(tt/cc): squared M-norm = s^2 * cc
-            s = v.right if same(v.left, cp) else v.left if same(v.right, cp) else None
-            A = Algebra()
-            ok = None
-            if s is not None:
-                try:
-                    S = A.lower(s)
-                    ok = A.equal(A.norm(S * S * A.atom(cc)), A.atom(tt))
-                except NotPolynomial:
-                    ok = None
-            okg = any(pol and isinstance(f, ast.Compare) and same(f, f"{cc} >= {tt}") for (f, pol) in fs)
-            ctx.decide(rule, (ok and okg) if ok is not None else None, dg, r.ast, construct="return-scaled-cauchy-point",
-                       detail=f"|{src(v)}|^2_M = {tt} under {cc} >= {tt}",
-                       bad_detail=f"scaled Cauchy point `{src(v)}`: squared norm does not normalise to {tt}, or it is not returned under `{cc} >= {tt}`")
-        elif isinstance(v, ast.Call) and isinstance(v.func, ast.Name) and v.func.id == "preconditioned_project_to_boundary":
-            pp_ = ctx.need(f"{ES}:preconditioned_project_to_boundary").params()
-            a = [actual(v, pp_, p_) for p_ in pp_]
-            ok = len(a) == 5 and all(x is not None for x in a) and same(a[0], cp) and same(a[1], f"{nw} - {cp}") and same(a[2], tr) and same(a[3], cc) and same(a[4], mm)
-            # guard: Cauchy point inside and Newton point outside (either spelling of the negated test)
-            okg = implies_le(fs, cc, tt) and (any(pol and same(f, f"{nn} > {tt}") for (f, pol) in fs) or
-                                             any((not pol) and same(f, f"{nn} <= {tt}") for (f, pol) in fs) or implies_le(fs, tt, nn))
-            ctx.decide(rule, ok and okg, dg, r.ast, construct="return-dogleg-boundary-point",
-                       detail="boundary point on cp + tau (newton - cp), cp inside, newton outside",
-                       bad_detail=f"dogleg boundary point `{src(v)[:100]}` does not start at the Cauchy point along (newton - cauchy) with zz = cc, "
-                                  f"or is not taken exactly when cp is inside and the Newton point outside")
+    cp, nw = it.vec(ps[0]), it.vec(ps[1])
+    Delta = it.scalar(ps[2], positive=True)
+    paths = it.run_paths(it.fn(sc), [cp, nw, Delta, M])
+    ip = lambda u, v: it.dot(u, M.apply(v)).a
+    cc, nn, tt = ip(cp, cp), ip(nw, nw), Delta.a * Delta.a
+    aC, aN = ((), ps[0]), ((), ps[1])
+
+    def setup(smp):
+        sc_ = smp.rng.choice([0.3, 1.0, 3.0])
+        smp.vectors[ps[0]] = [smp.rng.uniform(-2, 2) * sc_, smp.rng.uniform(-2, 2) * sc_]
+        smp.vectors[ps[1]] = [smp.rng.uniform(-2, 2), smp.rng.uniform(-2, 2)]
+        smp.opmat("M")
+        smp.scalars[ps[2]] = smp.rng.choice([0.2, 0.5, 1.0, 2.0, 4.0]) * smp.rng.uniform(0.5, 1.5)
+
+    def val(smp, r):
+        return smp.value(r)
+
+    def show_w(smp):
+        return (f"Cauchy point {tuple(round(x, 3) for x in smp.vectors[ps[0]])}, quasi-Newton point {tuple(round(x, 3) for x in smp.vectors[ps[1]])}, "
+                f"radius {smp.scalars[ps[2]]:.3g}, metric {[[round(x, 3) for x in row] for row in smp.ops['M']]}")
+
+    n_ret = 0
+    for p in paths:
+        if p.kind != "return" or not isinstance(p.value, FV):
+            ctx.undecided(rule, sc, p.ret_node, construct="path-not-interpreted", detail=p.error or f"returns {_show(p.value)}")
+            continue
+        n_ret += 1
+        V, facts, node = p.value, p.facts, p.ret_node
+        N2 = ip(V, V)
+        if not set(V.t) <= {aC, aN}:
+            ctx.undecided(rule, sc, node, construct="return:other", detail=f"unrecognised dogleg return {_show(V)}")
+            continue
+        a, b = V.coef(aC), V.coef(aN)
+
+        def outside(smp, N2=N2):
+            v, t = val(smp, N2), val(smp, tt)
+            return f"|step|^2 = {v:.4g} > radius^2 = {t:.4g}" if v > t * (1 + 1e-9) else None
+
+        if V.same(cp) or V.same(nw):
+            which = "cauchy" if V.same(cp) else "newton"
+            sq = cc if which == "cauchy" else nn
+            ok = implies_nonneg(it, facts, tt - sq)
+            bad = None
+            if not ok:
+                w, smp = _witness(it, facts, setup, outside)
+                ok = False if w else None
+                bad = (f"the {'Cauchy' if which == 'cauchy' else 'quasi-Newton'} point is returned on a path whose conditions {_show(facts, 200)} do not keep it inside: "
+                       f"{w} for {show_w(smp)}") if w else f"path conditions {_show(facts, 200)} not shown to imply |point|^2 <= radius^2"
+            ctx.decide(rule, ok, sc, node, construct=f"return-{which}-point",
+                       detail=f"{'Cauchy' if which == 'cauchy' else 'quasi-Newton'} point returned only when inside the region", bad_detail=bad)
+        elif b.n.is_zero():
+            # s * cp
+            ok_id = req(N2, tt)
+            ok_g = implies_nonneg(it, facts, cc - tt)
+            sg = it.sign_of(a)
+            if ok_id and ok_g and sg is not None and sg >= 0:
+                ctx.proved(rule, sc, node, construct="return-scaled-cauchy-point",
+                           detail="s*cp with s >= 0, s^2 <cp,cp> = Delta^2 identically, returned under <cp,cp> >= Delta^2 (so s <= 1: on the first leg, on the boundary)")
+            else:
+                def bad_scaled(smp, a=a, N2=N2):
+                    s, v, t = val(smp, a), val(smp, N2), val(smp, tt)
+                    if abs(v - t) > 1e-7 * max(t, 1e-30):
+                        return f"|s*cp|^2 = {v:.4g} differs from radius^2 = {t:.4g} (s = {s:.4g})"
+                    if s < -1e-12 or s > 1 + 1e-9:
+                        return f"scale factor s = {s:.4g} outside [0, 1]"
+                    return None
+                w, smp = _witness(it, facts, setup, bad_scaled)
+                ctx.decide(rule, False if w else None, sc, node, construct="return-scaled-cauchy-point",
+                           bad_detail=(f"scaled Cauchy point {_show(V)}: {w} for {show_w(smp)}" if w else
+                                       f"scaled Cauchy point {_show(V)}: norm identity {ok_id}, guard <cp,cp> >= Delta^2 implied {ok_g}, sign of the factor {sg}"))
         else:
-            ctx.undecided(rule, dg, r.ast, construct=f"return:{src(v)[:40]}", detail="unrecognised dogleg return")
+            # a*cp + b*nw : must be cp + tau (nw - cp), tau in [0, 1], on the boundary
+            tau = b
+            on_line = req(a + b, ONE)
+            ok_id = req(N2, tt)
+            ok_c = implies_nonneg(it, facts, tt - cc)
+            ok_n = implies_nonneg(it, facts, nn - tt)
+
+            def setup_in(smp):
+                setup(smp)
+                c_ = smp.value(cc)
+                smp.scalars[ps[2]] = math.sqrt(c_) * (1.1 + smp.rng.uniform(0, 1.5)) + 1e-3
+            sg = _forward_root(it, tau, setup_in) if (on_line and ok_id) else None
+            if on_line and ok_id and ok_c and ok_n and sg == 1:
+                ctx.proved(rule, sc, node, construct="return-dogleg-boundary-point",
+                           detail="cp + tau (newton - cp) with |.|^2 = Delta^2 identically, tau the forward root, returned under <cp,cp> <= Delta^2 <= <newton,newton>: "
+                                  "tau in [0,1] by the intermediate value property of the convex quadratic t -> |cp + t (newton - cp)|^2")
+            else:
+                def bad_dog(smp, a=a, b=b, N2=N2):
+                    x, y, v, t = val(smp, a), val(smp, b), val(smp, N2), val(smp, tt)
+                    if abs(x + y - 1) > 1e-8:
+                        return f"coefficients {x:.4g}*cp + {y:.4g}*newton do not sum to 1: the point is not on the line from the Cauchy point to the quasi-Newton point"
+                    if y < -1e-9 or y > 1 + 1e-9:
+                        return f"tau = {y:.4g} outside [0, 1]: the point is not between the Cauchy point and the quasi-Newton point"
+                    if v > t * (1 + 1e-9):
+                        return f"|step|^2 = {v:.4g} > radius^2 = {t:.4g}"
+                    return None
+                w, smp = _witness(it, facts, setup, bad_dog)
+                if w is None and not on_line and only_atoms_understood(it, a + b):
+                    w, smp = "the coefficients of cp and newton do not sum to 1 identically", None
+                ctx.decide(rule, False if w else None, sc, node, construct="return-dogleg-boundary-point",
+                           bad_detail=(f"dogleg point {_show(V, 160)}: {w}" + (f" for {show_w(smp)}" if smp is not None else "")) if w else
+                                      f"dogleg point {_show(V, 160)}: on the line {on_line}, norm identity {ok_id}, cp inside implied {ok_c}, newton outside implied {ok_n}, forward root {sg}")
+    if n_ret < 2:
+        ctx.undecided(rule, sc, None, construct="returns", detail=f"{n_ret} interpreted return paths")
+    _touch(ctx, it)
+
+
+def only_atoms_understood(it, r):
+    return all(a in it.gram_info or a.startswith("sqrt[") or a in it.positive for a in atoms_of(r))
+
+
+# ------------------------------------------------------------------ D2: Cauchy point handed to the dogleg step
+
+def _objective_model(it, name):
+    """opaque objective: gradient / value are uninterpreted, hessian_vec(x, .) a symmetric operator per point x, the preconditioner and the
+    approximate Hessian symmetric positive definite operators"""
+    from optilint.tensoreval import PyFunc
+    hops = {}
+
+    def hess_vec(i, args, kw):
+        x, v = args[0], args[1]
+        k = x.key() if isinstance(x, FV) else repr(x)
+        if k not in hops:
+            hops[k] = i.op(f"K{len(hops)}")
+        return hops[k].apply(v)
+
+    def grad(i, args, kw):
+        x = args[0]
+        if not isinstance(x, FV):
+            raise EvalError("gradient of a non-vector")
+        return FV.sym(f"grad[{x.key()}]")
+
+    def value(i, args, kw):
+        return i.opaque_scalar("value", [args[0].key()])
+
+    def gat(i, args, kw):
+        x = args[0]
+        k = x.key()
+        if k not in hops:
+            hops[k] = i.op(f"K{len(hops)}")
+        return grad(i, args, kw), hops[k]
+    nothing = PyFunc("effect", lambda i, a, k: None)
+    Mop = it.op("M", spd=True)
+    Pop = it.op("P", inverse="Pinv", spd=True)
+    return SymObj(name, {"gradient": PyFunc("gradient", grad), "value": PyFunc("value", value), "hessian_vec": PyFunc("hessian_vec", hess_vec),
+                         "gradient_and_tangent": PyFunc("gradient_and_tangent", gat), "multiply_by_approx_hessian": Mop, "apply_precond": Pop,
+                         "update_precond": nothing, "check_stability": nothing}), hops, Pop
 
 
 def d2_cauchy(ctx):
     rule = "D2/T8-cauchy-direction"
+    it = SymInterp(ctx.repo, max_paths=3000)
+    it.tolerant = True
     trm = ctx.need(f"{ES}:trust_region_minimize")
-    cfg = cfg_of(trm)
-    # the variable handed to dogleg_step as Cauchy point
-    cpname = None
-    radius = None
-    for c in calls_in(trm):
-        if isinstance(c.func, ast.Name) and c.func.id == "dogleg_step" and c.args and isinstance(c.args[0], ast.Name):
-            cpname = c.args[0].id
-            if len(c.args) > 2 and isinstance(c.args[2], ast.Name):
-                radius = c.args[2].id
-    # the gradient: the local defined by a call of the objective's gradient method
-    aliases = {st.targets[0].id for st in ast.walk(trm.node) if isinstance(st, ast.Assign) and isinstance(st.targets[0], ast.Name)
-               and isinstance(st.value, ast.Attribute) and st.value.attr == "gradient"}
-    gnames = {st.targets[0].id for st in ast.walk(trm.node) if isinstance(st, ast.Assign) and isinstance(st.targets[0], ast.Name)
-              and isinstance(st.value, ast.Call) and ((isinstance(st.value.func, ast.Attribute) and st.value.func.attr == "gradient")
-                                                      or (isinstance(st.value.func, ast.Name) and st.value.func.id in aliases))}
-    if cpname is None:
-        raise Incomplete("dogleg_step call not found in trust_region_minimize")
-    defs = [n for n in cfg.nodes if n.kind == "stmt" and any(cc == cpname for (cc, w) in cfg.defs_of(n))]
-    for k_, n in enumerate(defs):
-        a = n.ast
-        facts = []
-        for (c, l) in cfg.edge_facts(n):
-            if c.kind == "cond":
-                for (at, pol) in cond_atoms(c.ast, l):
-                    facts.append((at, pol))
-        def resolver(name, n=n):
-            d = single_def(cfg, n, name)
-            return def_value(d, name) if d is not None else None
-        env = SignEnv(facts, assumptions={radius or "trSize": "+"}, expander=resolver)
-        if isinstance(a, ast.Assign):
-            v = a.value
-            # coefficient of g
-            coef = None
-            if isinstance(v, ast.BinOp) and isinstance(v.op, ast.Mult):
-                for x, y in ((v.left, v.right), (v.right, v.left)):
-                    if isinstance(y, ast.Name) and y.id in gnames:
-                        coef = x
-                    elif isinstance(y, ast.UnaryOp) and isinstance(y.op, ast.USub) and isinstance(y.operand, ast.Name) and y.operand.id in gnames:
-                        coef = ast.UnaryOp(op=ast.USub(), operand=x)
-            if coef is None:
-                ctx.undecided(rule, trm, a, construct=f"cauchy-def:{k_}", detail=f"`{src(a)[:60]}` is not a multiple of the gradient")
+    ps = trm.params()
+    if len(ps) < 3:
+        raise Incomplete("trust_region_minimize signature")
+    obj, hops, Pop = _objective_model(it, ps[0])
+    calls = {"dogleg": [], "cg": []}
+    dg = ctx.need(f"{ES}:dogleg_step")
+    stm = ctx.repo.find(f"{ES}:solve_trust_region_minimization")
+
+    def stop_dogleg(i, args, kw):
+        from .C06_sym import PathEnd
+        names = dg.params()
+        full = list(args) + [kw.get(n) for n in names[len(args):]]
+        calls["dogleg"].append((full, dict(kw), list(i.path.facts)))
+        raise PathEnd("stop", what="dogleg")
+
+    def stub_cg(i, args, kw):
+        from optilint.tensoreval import Unknown
+        names = stm.params()
+        full = list(args) + [kw.get(n) for n in names[len(args):]]
+        calls["cg"].append((full, dict(kw)))
+        return (FV.sym("qNewton"), FV.sym("cgCauchy"), Unknown("step type of the CG solver"), i.scalar("cgIters", nonneg=True))
+    it.stop_calls[dg.qualname] = stop_dogleg
+    if stm is not None:
+        it.stop_calls[stm.qualname] = stub_cg
+    x = it.vec(ps[1])
+    args = [obj, x, SymObj(ps[2])]
+    paths = it.run_paths(it.fn(trm), args, {})
+    errs = sorted({p.error for p in paths if p.kind == "error"})
+    for e in errs[:3]:
+        ctx.undecided(rule, trm, None, construct="path-not-interpreted", detail=e)
+    if not calls["dogleg"]:
+        raise Incomplete("no path of trust_region_minimize reaches dogleg_step")
+    grads = [a[1] for (a, k) in calls["cg"] if len(a) > 1 and isinstance(a[1], FV)]
+    if not grads:
+        ctx.undecided(rule, trm, None, construct="model-gradient", detail="no call of the CG subproblem solver from which the model gradient could be read")
+        return
+    G = grads[0]
+    if any(not g.same(G) for g in grads) or len(G.t) != 1:
+        ctx.undecided(rule, trm, None, construct="model-gradient", detail="the CG subproblem solver is called with different / composite gradients")
+        return
+    (ga, gc), = G.t.items()
+    seen = {}
+    radius_atoms = set()
+    for (a, k, facts) in calls["dogleg"]:
+        rad = a[2] if len(a) > 2 else k.get(dg.params()[2])
+        if isinstance(rad, Dual):
+            radius_atoms |= set(nrm(rad.a).atoms())      # the radius is assumed positive
+    for (a, k) in calls["cg"]:
+        rad = a[4] if len(a) > 4 else None
+        if isinstance(rad, Dual):
+            radius_atoms |= set(nrm(rad.a).atoms())
+    for (a, k, facts) in calls["dogleg"]:
+        cpv = a[0] if a else k.get(dg.params()[0])
+        if not isinstance(cpv, FV):
+            ctx.undecided(rule, trm, None, construct="cauchy-point", detail=f"dogleg_step receives {_show(cpv)} as Cauchy point")
+            continue
+        if not set(cpv.t) <= {ga}:
+            key = "other:" + cpv.key()
+            if key not in seen:
+                seen[key] = 1
+                ctx.undecided(rule, trm, None, construct="cauchy-point-is-multiple-of-gradient",
+                              detail=f"the Cauchy point {_show(cpv)} is not a multiple of the model gradient {_show(G)}")
+            continue
+        c = nrm(cpv.coef(ga) / gc)
+        key = rkey(c)
+        seen.setdefault(key, {"c": c, "facts": []})["facts"].append(facts)
+    k_ = 0
+    for key, rec in seen.items():
+        if not isinstance(rec, dict):
+            continue
+        c = rec["c"]
+        verdicts = []
+        for facts in rec["facts"]:
+            pos = set()
+            for f in facts:
+                g = fact_ge(f)
+                if g is not None and g[1]:
+                    e = nrm(g[0])
+                    if len(e.n.t) == 1 and e.d == Poly.const(1):
+                        (m, cf), = e.n.t.items()
+                        if cf > 0 and len(m) == 1 and m[0][1] == 1:
+                            pos.add(m[0][0])
+            s = it.sign_of(c, pos | radius_atoms)
+            if s is not None and s <= 0:
+                verdicts.append((True, f"coefficient of the gradient {_show(c, 80)} is <= 0"))
                 continue
-            s = env.sign(coef)
-            ok = True if is_nonpos(s) else (None if s == TOP else False)
-            ctx.decide(rule, ok, trm, a, construct=f"cauchy-coefficient:def{k_}",
-                       detail=f"coefficient of g has sign {s} ({'; '.join(env.used[-2:])})",
-                       bad_detail=f"Cauchy point `{src(a)}`: coefficient of the gradient has sign {s}; it must be <= 0 (steepest descent)")
-        elif isinstance(a, ast.AugAssign) and isinstance(a.op, ast.Mult):
-            s = env.sign(a.value)
-            ok = True if s in ("+", "0+") else (None if s == TOP else False)
-            ctx.decide(rule, ok, trm, a, construct=f"cauchy-rescale:def{k_}", detail=f"rescaled by a factor of sign {s}",
-                       bad_detail=f"Cauchy point rescaled by `{src(a.value)}` of sign {s}: direction may flip")
+
+            def setup(smp):
+                for a_ in radius_atoms:
+                    smp.scalars.setdefault(a_, smp.rng.uniform(0.2, 3))
+
+            def bad(smp, c=c):
+                v = smp.value(c)
+                return f"coefficient = {v:.4g} > 0" if v > 1e-12 else None
+            w, smp = _witness(it, facts, setup, bad)
+            if w:
+                verdicts.append((False, f"Cauchy point = ({_show(c, 120)}) * gradient: {w} at a sample satisfying the path conditions {_show(facts, 160)}; "
+                                        f"it must be a non-positive multiple of the gradient (steepest descent)"))
+            else:
+                verdicts.append((None, f"sign of the coefficient {_show(c, 120)} not decided under {_show(facts, 160)}"))
+        ok, det = _combine(verdicts)
+        ctx.decide(rule, ok, trm, None, construct=f"cauchy-coefficient:case{k_}", detail=det, bad_detail=det)
+        k_ += 1
+    _touch(ctx, it)
+
+
+
+def d1_subspace_call_contract(ctx):
+    """trust_region_cg is analysed under the contract Pr = precond(r), HPr = hess_vec_func(Pr); here the call in
+    trust_region_subspace_minimize is checked against it (by value).  When the driver cannot be interpreted the contract stays an assumption."""
+    rule = "D1/T1-labelled-exits"
+    from .C06_sym import PathEnd
+    drv = ctx.repo.find(f"{ESS}:trust_region_subspace_minimize")
+    cgs = ctx.repo.find(f"{ESS}:trust_region_cg")
+    if drv is None or cgs is None or len(drv.params()) < 3:
+        return
+    it = SymInterp(ctx.repo, max_paths=400)
+    it.tolerant = True
+    obj, hops, Pop = _objective_model(it, drv.params()[0])
+    calls = []
+
+    def stop(i, args, kw):
+        names = cgs.params()
+        calls.append(list(args) + [kw.get(n) for n in names[len(args):]])
+        raise PathEnd("stop", what="cg")
+    it.stop_calls[cgs.qualname] = stop
+    try:
+        it.run_paths(it.fn(drv), [obj, it.vec(drv.params()[1]), SymObj(drv.params()[2])], {})
+    except (Budget,) + tuple(EVAL_ERRORS):
+        calls = []
+    vs = []
+    for a in calls:
+        if len(a) < 6 or not all(isinstance(x, FV) for x in a[1:4]):
+            vs.append((None, "arguments of the trust_region_cg call not readable"))
+            continue
+        r, Pr, HPr, H, P = a[1], a[2], a[3], a[4], a[5]
+        try:
+            PofR, HofPr = it.call(P, [r], {}), it.call(H, [Pr], {})
+        except EVAL_ERRORS:
+            vs.append((None, "operators passed to trust_region_cg not applicable symbolically"))
+            continue
+        ok = isinstance(PofR, FV) and isinstance(HofPr, FV) and Pr.same(PofR) and HPr.same(HofPr)
+        vs.append((ok, "Pr = precond(r) and HPr = hess_vec_func(Pr) at the call" if ok else
+                   f"trust_region_cg is called with r = {_show(r, 60)}, Pr = {_show(Pr, 60)}, HPr = {_show(HPr, 60)}: not Pr = precond(r), HPr = hess_vec_func(Pr)"))
+    if vs:
+        ok, det = _combine(vs)
+        if ok is not None:
+            ctx.decide(rule, ok, drv, None, construct="subspace-cg-call-contract", detail=det, bad_detail=det)
+            _touch(ctx, it)
+            return
+    ctx.assume("trust_region_cg is called with Pr = precond(r) and HPr = hess_vec_func(Pr)")
 
 
 # ------------------------------------------------------------------ D3: index-space types
@@ -663,7 +1424,18 @@ class SpaceTyper:
             if last in ("maximum", "minimum") and len(args) == 2:
                 return self._elementwise(e, args[0], args[1])
             if last in ("where", "if_then_else") and len(args) == 3:
+                if args[0] in (SC, TOPT):
+                    return self._elementwise(e, args[1], args[2])
                 return self._elementwise(e, self._elementwise(e, args[0], args[1]), args[2])
+            if isinstance(e.func, ast.Attribute) and not (dotted(e.func.value) or "").split(".")[0] in ("np", "onp", "jnp", "numpy", "jax", "math"):
+                recv = self._ty(e.func.value)
+                if recv not in (TOPT, SC):
+                    if e.func.attr in ("mean", "sum", "max", "min") and not args:
+                        return SC
+                    if e.func.attr == "dot" and len(args) == 1:
+                        return self._matmul(e, recv, args[0])
+                    if e.func.attr in ("copy", "conj") and not args:
+                        return recv
             if last == "dot" and len(args) == 2:
                 return self._matmul(e, args[0], args[1])
             # repo function: infer by typing its body with these argument types
@@ -699,7 +1471,7 @@ class SpaceTyper:
                     if isinstance(tg, ast.Name):
                         self.env[tg.id] = t
                     elif isinstance(tg, ast.Tuple):
-                        if (dotted(st.value.func) if isinstance(st.value, ast.Call) else "") in ("eigh", "np.linalg.eigh", "jax.numpy.linalg.eigh"):
+                        if ((dotted(st.value.func) or "") if isinstance(st.value, ast.Call) else "").split(".")[-1] == "eigh":
                             a = self._ty(st.value.args[0])
                             ax = a[1] if a not in (TOPT, SC) and a[0] == "Mat" else "S"
                             self.env[tg.elts[0].id] = _vec("M")
@@ -748,206 +1520,201 @@ def d3_types(ctx):
         seen.add(key)
         ctx.refuted(rule, sv, node, construct=f"type-error:{key[:60]}",
                     detail=f"`{key[:80]}`: {msg} (sig, v = eigh(A): v has space rows and eigen-mode columns)")
-    n_ret = 0
-    for st in ast.walk(sv.node):
-        if isinstance(st, ast.Return):
-            n_ret += 1
+    pending = []
     for i, rt in enumerate(rets):
         ok = rt == _vec("S")
         bad = rt != TOPT and not ok
         if not errors or ok:
-            ctx.decide(rule, True if ok else (False if bad else None), sv, None, construct=f"return#{i}-is-space-vector",
-                       detail=f"return {i} has type {SpaceTyper.show(rt)}",
-                       bad_detail=f"return {i} of treigen.solve has type {SpaceTyper.show(rt)}, not a vector over space")
+            if ok or bad:
+                ctx.decide(rule, True if ok else False, sv, None, construct=f"return#{i}-is-space-vector",
+                           detail=f"return {i} has type {SpaceTyper.show(rt)}",
+                           bad_detail=f"return {i} of treigen.solve has type {SpaceTyper.show(rt)}, not a vector over space")
+            else:
+                pending.append(i)       # the flow-insensitive typing lost track: decided below by the path-wise interpretation
     ctx.extra_cov["treigen_typed_operations"] = ty.checked
-    if ty.checked < 15:
-        ctx.undecided(rule, sv, None, construct="typed-operations", detail=f"only {ty.checked} operations typed")
     if not errors:
         ctx.proved(rule, sv, None, construct="all-operations-type-check", detail=f"{ty.checked} products/elementwise operations type-check")
-
-
-def d3_hard_case_multiplier(ctx):
-    """In the hard case the step is p + tau*z with z a unit eigenvector; tau must satisfy
-    |p + tau z|^2 = Delta^2, i.e. tau^2 + 2 (p.z) tau + p.p - Delta^2 = 0, and be finite when p.z = 0
-    (p is orthogonal to z in the exact hard case)."""
-    rule = "D3/T7-hard-case-multiplier"
-    from optilint.expr import feval
-    sv = ctx.need(f"{TE}:solve")
-    cfg = cfg_of(sv)
-    Delta = sv.params()[2]
-    found = 0
-    for r in cfg.returns():
-        v = r.ast.value
-        if not (isinstance(v, ast.BinOp) and isinstance(v.op, ast.Add)):
-            continue
-        tau = None
-        pn = zn = None
-        for a, b in ((v.left, v.right), (v.right, v.left)):
-            if isinstance(a, ast.Name) and isinstance(b, ast.BinOp) and isinstance(b.op, ast.Mult):
-                for t, z in ((b.left, b.right), (b.right, b.left)):
-                    if isinstance(z, ast.Name) and isinstance(t, ast.Name):
-                        # z is the one defined by subscripting the eigenvector matrix
-                        zd = single_def(cfg, r, z.id)
-                        if zd is not None and isinstance(def_value(zd, z.id), ast.Subscript):
-                            tau, pn, zn = t, a.id, z.id
-        if tau is None:
-            continue
-        found += 1
-        te = expand(cfg, r, tau, stop=(pn, zn))
-        # sign-like sub-expressions -> atom with s^2 = 1 ; np.sign(x) may be 0
-        import copy
-        signs = []
-
-        class Rep(ast.NodeTransformer):
-            def visit_Call(self, c):
-                self.generic_visit(c)
-                d = (dotted(c.func) or "").split(".")[-1]
-                if d == "where" and len(c.args) == 3 and {const_value(c.args[1]), const_value(c.args[2])} == {1.0, -1.0}:
-                    signs.append(("where", c))
-                    return ast.Name(id="sgn__", ctx=ast.Load())
-                if d == "sign" and len(c.args) == 1:
-                    signs.append(("sign", c))
-                    return ast.Name(id="sgn__", ctx=ast.Load())
-                return c
-        te2 = Rep().visit(copy.deepcopy(te))
-        A = Algebra(vector_atoms={pn, zn})
-        A.rules["sgn__"] = Poly.const(1)
-        try:
-            T = A.lower(te2)
-            pz = A._bilinear(ast.Name(id=pn, ctx=ast.Load()), ast.Name(id=zn, ctx=ast.Load()))
-            pp = A._bilinear(ast.Name(id=pn, ctx=ast.Load()), ast.Name(id=pn, ctx=ast.Load()))
-            lhs = A.norm(T * T + A.const(2) * pz * T + pp)
-            ok = A.equal(lhs, A.lower(ast.parse(f"{Delta}*{Delta}", mode="eval").body))
-            ctx.decide(rule, ok, sv, r.ast, construct="hard-case-step-on-boundary",
-                       detail="tau^2 + 2 (p.z) tau + p.p normalises to Delta^2 (unit eigenvector, sign^2 = 1)",
-                       bad_detail=f"|p + tau z|^2 normalises to {lhs!r}, not Delta^2")
-        except NotPolynomial as ex:
-            ctx.undecided(rule, sv, r.ast, construct="hard-case-step-on-boundary", detail=str(ex))
-        # finiteness at p.z = 0
-        if any(k == "sign" for (k, c) in signs):
-            ctx.refuted(rule, sv, r.ast, construct="hard-case-multiplier-finite-at-orthogonality",
-                        detail="the multiplier uses np.sign(p@z), which is 0 when p is orthogonal to the eigenvector (the exact hard case): "
-                               "tau = (Delta^2-p.p)/(0 + 0*sqrt(.)) is a division by zero")
-        else:
-            ctx.proved(rule, sv, r.ast, construct="hard-case-multiplier-finite-at-orthogonality",
-                       detail="sign factor is +-1 for every argument")
-    if found == 0:
-        ctx.undecided(rule, sv, None, construct="hard-case-return", detail="no `p + tau*z` return found")
-
-
-def d3_pole_offset(ctx):
-    """Boundary case of the exact solver: the multiplier iteration starts at -(smallest eigenvalue) + offset; the offset must be
-    non-negative for every matrix, otherwise the start lies on the wrong side of the pole for matrices of negative trace."""
-    rule = "D3/T8-pole-offset-nonnegative"
-    from optilint.absdom import SignEnv, is_nonneg
-    sv = ctx.need(f"{TE}:solve")
-    cfg = cfg_of(sv)
-    eig = [n for n in cfg.nodes if n.kind == "stmt" and isinstance(n.ast, ast.Assign) and isinstance(n.ast.value, ast.Call)
-           and (dotted(n.ast.value.func) or "").split(".")[-1] in ("eigh", "eig") and isinstance(n.ast.targets[0], ast.Tuple)]
-    if len(eig) != 1:
-        ctx.undecided(rule, sv, None, construct="eigen-decomposition", detail="`values, vectors = eigh(A)` not found")
-        return
-    vals = eig[0].ast.targets[0].elts[0].id
-    # role of the multiplier: the scalar that shifts the spectrum (`values + lam`)
-    shifts = set()
-    for x in ast.walk(sv.node):
-        if isinstance(x, ast.BinOp) and isinstance(x.op, ast.Add):
-            for a, b in ((x.left, x.right), (x.right, x.left)):
-                if isinstance(a, ast.Name) and a.id == vals and isinstance(b, ast.Name):
-                    shifts.add(b.id)
-    shifts = {x for x in shifts if x not in sv.params() or True}
-
-    def terms(e, sgn=1, out=None):
-        out = [] if out is None else out
-        if isinstance(e, ast.BinOp) and isinstance(e.op, (ast.Add, ast.Sub)):
-            terms(e.left, sgn, out)
-            terms(e.right, sgn if isinstance(e.op, ast.Add) else -sgn, out)
-        elif isinstance(e, ast.UnaryOp) and isinstance(e.op, ast.USub):
-            terms(e.operand, -sgn, out)
-        else:
-            out.append((sgn, e))
-        return out
-    found = 0
-    for n in cfg.nodes:
-        if n.kind != "stmt" or not isinstance(n.ast, ast.Assign) or n.loops:
-            continue
-        if not any(isinstance(t, ast.Name) and t.id in shifts for t in n.ast.targets):
-            continue
-        vs = [n.ast.value.body, n.ast.value.orelse] if isinstance(n.ast.value, ast.IfExp) else [n.ast.value]
-        for v in vs:
-            if const_value(v) == 0:
-                continue                # the multiplier starts at zero when the matrix is safely positive definite
-            ev_ = expand(cfg, n, v, stop=(vals,))
-            ts = terms(ev_)
-            pole = [k for k, (sg_, t) in enumerate(ts) if sg_ == -1 and same(t, f"{vals}[0]")]
-            if len(pole) != 1:
-                continue
-            rest = [x for k, x in enumerate(ts) if k != pole[0]]
-            if not rest:
-                off = ast.Constant(value=0)
-            else:
-                off = None
-                for (sg_, t) in rest:
-                    t2 = t if sg_ == 1 else ast.UnaryOp(op=ast.USub(), operand=t)
-                    off = t2 if off is None else ast.BinOp(left=off, op=ast.Add(), right=t2)
-                ast.fix_missing_locations(off)
-            found += 1
-            sg = SignEnv().sign(off)
-            ok = True if is_nonneg(sg) else None
-            wit = ""
-            if ok is None:
-                w = _vec_eval(off, {vals: [-3.0, -2.0, -1.0]})
-                if w is not None and w < 0:
-                    ok, wit = False, f"{w:.3g} for eigenvalues (-3, -2, -1)"
-            ctx.decide(rule, ok, sv, n.ast, construct="initial-multiplier-offset", detail=f"offset `{src(off)}` is non-negative for every spectrum",
-                       bad_detail=f"`{src(n.ast)}`: the offset `{src(off)}` is {wit}: for a matrix of negative trace the boundary iteration starts "
-                                  f"below the pole -lambda_min and converges to a stationary point that is not the minimiser")
-    if not found:
-        ctx.undecided(rule, sv, None, construct="initial-multiplier-offset", detail="initial multiplier `-lambda_min + offset` not found")
-
-
-def _vec_eval(e, env):
-    """tiny evaluator for scalar expressions over one list-valued name (mean/abs/sum/max/min, + - * /)"""
+    # second opinion, path by path: the symbolic interpretation keeps space vectors, mode vectors and the eigenvector matrix apart
+    complete = False
     try:
-        if isinstance(e, ast.Constant):
-            return float(e.value)
-        if isinstance(e, ast.Name):
-            return env[e.id]
-        if isinstance(e, ast.UnaryOp) and isinstance(e.op, ast.USub):
-            v = _vec_eval(e.operand, env)
-            return [-x for x in v] if isinstance(v, list) else -v
-        if isinstance(e, ast.BinOp):
-            a, b = _vec_eval(e.left, env), _vec_eval(e.right, env)
-            f = {ast.Add: lambda x, y: x + y, ast.Sub: lambda x, y: x - y, ast.Mult: lambda x, y: x * y, ast.Div: lambda x, y: x / y}[type(e.op)]
-            if isinstance(a, list) and isinstance(b, list):
-                return [f(x, y) for x, y in zip(a, b)]
-            if isinstance(a, list):
-                return [f(x, b) for x in a]
-            if isinstance(b, list):
-                return [f(a, y) for y in b]
-            return f(a, b)
-        if isinstance(e, ast.Call):
-            last = (dotted(e.func) or "").split(".")[-1]
-            v = _vec_eval(e.args[0], env)
-            if last in ("abs", "absolute", "fabs"):
-                return [abs(x) for x in v] if isinstance(v, list) else abs(v)
-            if last in ("mean", "average"):
-                return sum(v) / len(v)
-            if last == "sum":
-                return sum(v)
-            if last in ("max", "amax"):
-                return max(v)
-            if last in ("min", "amin"):
-                return min(v)
-        if isinstance(e, ast.Subscript) and isinstance(e.slice, ast.Constant):
-            return _vec_eval(e.value, env)[e.slice.value]
-    except (KeyError, TypeError, ZeroDivisionError, IndexError, ValueError):
-        return None
-    return None
+        it, sv2, ps2, Delta2, paths = _te_paths(ctx)
+        seen_c = set()
+        for p in paths:
+            if p.kind == "error" and p.clash and p.error not in seen_c:
+                seen_c.add(p.error)
+                ctx.refuted(rule, sv, None, construct="index-space-clash:" + p.error.split(": ", 1)[-1][:70],
+                            detail=f"on the path with conditions {_show(p.facts, 160)}: {p.error.split(': ', 1)[-1]} (sig, v = eigh(A): v has space rows and eigen-mode columns)")
+        groups = {}
+        for p in paths:
+            if p.kind == "return":
+                groups.setdefault(id(p.ret_node), []).append(p)
+        for k, (rid, ps_) in enumerate(groups.items()):
+            kinds = {("space" if isinstance(p.value, FV) else "mode" if isinstance(p.value, MV) else "other") for p in ps_}
+            ok = True if kinds == {"space"} else (False if "mode" in kinds else None)
+            ctx.decide(rule, ok, sv, ps_[0].ret_node, construct=f"path-return#{k}-is-space-vector", detail="every path through this return yields a vector over space",
+                       bad_detail=f"this return yields a {'/'.join(sorted(kinds))} quantity: {_show(ps_[0].value)}")
+        complete = bool(groups) and not any(p.kind == "error" and not p.clash for p in paths)
+    except (Incomplete,) + tuple(EVAL_ERRORS) as e:
+        ctx.notes.append(f"treigen.solve not interpreted path by path: {e}")
+    if ty.checked < 15 and not complete:
+        ctx.undecided(rule, sv, None, construct="typed-operations", detail=f"only {ty.checked} operations typed and the path-wise interpretation is incomplete")
+    for i in pending:
+        if complete:
+            ctx.proved(rule, sv, None, construct=f"return#{i}-is-space-vector", detail="typed ? by the flow-insensitive pass; every path through every return yields a space vector (path-wise interpretation)")
+        else:
+            ctx.undecided(rule, sv, None, construct=f"return#{i}-is-space-vector", detail=f"return {i} of treigen.solve has type ? and the path-wise interpretation is incomplete")
+
+
+
+# ------------------------------------------------------------------ D3: hard case and initial multiplier of the exact solver
+
+_SPECTRA = [(-3.0, -2.0, -1.0), (-2.0, 0.5, 1.0), (-1.0, 0.25, 4.0), (0.0, 0.0, 2.0), (0.5, 1.0, 3.0), (-5.0, -5.0, 1.0), (-1e-3, 2.0, 2.0)]
+
+
+def d3_eigen_solver(ctx):
+    """treigen.solve is interpreted with A a symmetric matrix symbol: sig, v = eigh(A) is a mode vector and an orthogonal matrix.
+    * hard case: a return p + tau z with z a member of an orthonormal family of v satisfies |p + tau z|^2 = Delta^2 identically, and tau stays
+      finite on the path that contains p.z = 0 (p is orthogonal to z in the exact hard case);
+    * every scalar added to the spectrum before the multiplier iteration (the initial multiplier) is -lambda_min + offset with an offset that
+      is non-negative for every spectrum consistent with the path (sign rules, else a numeric witness of the extracted expression)."""
+    hrule = "D3/T7-hard-case-multiplier"
+    prule = "D3/T8-pole-offset-nonnegative"
+    it, sv, ps, Delta, paths = _te_paths(ctx)
+    errs = sorted({p.error for p in paths if p.kind == "error" and not p.clash})
+    for e in errs[:3]:
+        ctx.undecided(hrule, sv, None, construct="path-not-interpreted", detail=e)
+    D2 = Delta.a * Delta.a
+    # ---- hard case
+    groups = {}
+    for p in paths:
+        if p.kind != "return" or not isinstance(p.value, FV):
+            continue
+        V = p.value
+        units = [a for a in V.t if a[0] == () and a[1] in it.ortho]
+        if len(units) != 1 or len(V.t) < 2:
+            continue
+        groups.setdefault(id(p.ret_node), []).append((p, units[0]))
+    for rid, items in groups.items():
+        node = items[0][0].ret_node
+        v_b, v_f = [], []
+        for p, za in items:
+            V = p.value
+            tau = V.coef(za)
+            zv = FV({za: ONE})
+            pv = V.add(zv.scale(tau), -1)
+            N2 = it.dot(V, V).a
+            if req(N2, D2):
+                v_b.append((True, "|p + tau z|^2 = p.p + 2 tau p.z + tau^2 normalises to Delta^2 (z a unit vector of the orthogonal eigenvector matrix)"))
+            else:
+                v_b.append((False, f"|p + tau z|^2 normalises to {_show(N2, 240)}, not Delta^2 (tau = {_show(tau, 120)})"))
+            pz = nrm(it.dot(pv, zv).a)
+            if 0 not in p.allowed(pz):
+                continue                       # this path excludes p.z = 0
+            ats = pz.atoms()
+            if len(ats) != 1 or rat_const(nrm(pz / atom(next(iter(ats))))) is None:
+                v_f.append((None, f"p.z = {_show(pz)} is not a single inner product: orthogonality scenario not expressible"))
+                continue
+            den = Rat(nrm(tau).d)
+            at0 = subst(den, {next(iter(ats)): ZERO})
+            if at0.n.is_zero():
+                v_f.append((False, f"on the path that contains p.z = 0 (path conditions {_show(p.facts, 160)}) the multiplier is tau = {_show(tau, 160)}: "
+                                   f"its denominator vanishes when p is orthogonal to the eigenvector (the exact hard case): division by zero"))
+            else:
+                v_f.append((True, "the denominator of tau does not vanish at p.z = 0"))
+        ok, det = _combine(v_b)
+        ctx.decide(hrule, ok, sv, node, construct="hard-case-step-on-boundary", detail=det, bad_detail=det)
+        if v_f:
+            ok, det = _combine(v_f)
+            ctx.decide(hrule, ok, sv, node, construct="hard-case-multiplier-finite-at-orthogonality", detail=det, bad_detail=det)
+        else:
+            ctx.undecided(hrule, sv, node, construct="hard-case-multiplier-finite-at-orthogonality", detail="no path through this return is consistent with p.z = 0")
+    if not groups:
+        ctx.undecided(hrule, sv, None, construct="hard-case-return", detail="no return of the form p + tau*z with z a unit vector taken from the eigenvector matrix")
+    # ---- initial multiplier
+    seen = {}
+    for p in paths:
+        heads = set()
+        for L in p.loops.values():
+            for pth, v in snapshot_leaves(L["head"]).items():
+                if isinstance(v, Dual):
+                    heads |= set(nrm(v.a).atoms())
+        for ev in p.events:
+            if ev[0] != "shift" or not ev[1].startswith("eigvals("):
+                continue
+            s, nf = ev[2], ev[3]
+            if atoms_of(s) & heads or s.n.is_zero():
+                continue
+            seen.setdefault((ev[1], rkey(s)), {"s": s, "sym": ev[1], "facts": []})["facts"].append(p.facts[:nf])
+    if not seen:
+        ctx.undecided(prule, sv, None, construct="initial-multiplier-offset", detail="no scalar is added to the spectrum before the multiplier iteration")
+    for (sym, key), rec in seen.items():
+        s = rec["s"]
+        sig = MV(("sym", sym))
+        sig0 = it.getitem(sig, 0)
+        off = nrm(s + sig0.a)
+        if it.is_nonneg(off):
+            ctx.proved(prule, sv, None, construct="initial-multiplier-offset", detail=f"initial multiplier = -lambda_min + offset with offset `{_show(off, 80)}` >= 0 for every spectrum")
+            continue
+        wit = None
+        for spec in _SPECTRA:
+            for facts in rec["facts"]:
+                smp = Sample(it, seed=3, spectra={sym: list(spec)})
+                try:
+                    smp.scalars.setdefault(ps[2], 1.0)
+                    usable = [f for f in facts if _evaluable(it, f.d, smp)]
+                    if not all(smp.holds(f) for f in usable):
+                        continue
+                    v = smp.value(off)
+                except (SampleInvalid, KeyError, ZeroDivisionError, OverflowError, ValueError, IndexError):
+                    continue
+                if v < 0:
+                    wit = (v, spec)
+                    break
+            if wit:
+                break
+        if wit:
+            ctx.refuted(prule, sv, None, construct="initial-multiplier-offset",
+                        detail=f"the initial multiplier is `{_show(s, 100)}` = -lambda_min + offset with offset `{_show(off, 80)}` = {wit[0]:.3g} for eigenvalues {wit[1]}: "
+                               f"for such a matrix (negative trace) the boundary iteration starts below the pole -lambda_min and converges to a stationary point that is not the minimiser")
+        else:
+            ctx.undecided(prule, sv, None, construct="initial-multiplier-offset", detail=f"sign of the offset `{_show(off, 100)}` of the initial multiplier not decided")
+    _touch(ctx, it)
+
+
+def _evaluable(it, r, smp):
+    """can the value be computed from the spectrum alone (no free symbols)?"""
+    for a in atoms_of(r):
+        if a in smp.scalars or a in it.atom_eval or a.startswith("sqrt["):
+            continue
+        return False
+    # opaque atoms over mode vectors other than the spectrum need more data
+    try:
+        smp.value(r)
+        return True
+    except (SampleInvalid, KeyError, ZeroDivisionError, OverflowError, ValueError, IndexError):
+        return False
+
+
+
+def _te_paths(ctx):
+    """symbolic runs of treigen.solve (shared by the D3 rules)"""
+    c = getattr(ctx, "_c06_te", None)
+    if c is None:
+        it = SymInterp(ctx.repo)
+        sv = ctx.need(f"{TE}:solve")
+        ps = sv.params()
+        if len(ps) < 3 or sv.n_required() > 3:
+            raise Incomplete("treigen.solve signature")
+        A, b = MatSym(ps[0]), it.vec(ps[1])
+        Delta = it.scalar(ps[2], positive=True)
+        paths = it.run_paths(it.fn(sv), [A, b, Delta])
+        c = ctx._c06_te = (it, sv, ps, Delta, paths)
+    return c
 
 
 def variants(repo):
     from optilint.selftest import Variant, sub, sub_in_func, alpha_rename, reformat
+    from .C06_variants import more_variants
     E = "optimism/EquationSolver.py"
     S = "optimism/EquationSolverSubspace.py"
     T = "optimism/treigen/treigen.py"
@@ -984,4 +1751,4 @@ def variants(repo):
         Variant("alpha-rename dogleg", E, alpha_rename("dogleg_step"), None),
         Variant("alpha-rename project_to_boundary", E, alpha_rename("project_to_boundary"), None),
         Variant("alpha-rename CG", E, alpha_rename("solve_trust_region_minimization"), None),
-    ]
+    ] + more_variants()
